@@ -15,3 +15,1426 @@ Definition t_with (m : method) : track_opts := {| t_method := Some m; t_tob := N
 Definition c_plain : copy_opts := {| c_as := None; c_cforce := false; c_no_recheck := false; c_name_only := false |}.
 Definition m_plain : move_opts := {| m_as := None; m_no_recheck := false |}.
 Definition r0 : xrepo := xinit B3 Copy Auto.
+(* ---- decidable equalities ---------------------------------------------------------------------- *)
+Lemma algo_eqb_spec a b : reflect (a = b) (algo_eqb a b).
+Proof. destruct a, b; cbn; constructor; congruence. Qed.
+Lemma digest_eqb_spec a b : reflect (a = b) (digest_eqb a b).
+Proof.
+  destruct a as [a1 n1], b as [a2 n2]; unfold digest_eqb; cbn [d_algo d_norm].
+  destruct (algo_eqb_spec a1 a2) as [->|H]; cbn [andb]; [|constructor; congruence].
+  destruct (beqb_spec n1 n2) as [->|H]; constructor; congruence.
+Qed.
+Lemma caddr_eqb_spec a b : reflect (a = b) (caddr_eqb a b).
+Proof.
+  destruct a as [d1 e1], b as [d2 e2]; unfold caddr_eqb; cbn [a_digest a_ext].
+  destruct (digest_eqb_spec d1 d2) as [->|H]; cbn [andb]; [|constructor; congruence].
+  destruct (beqb_spec e1 e2) as [->|H]; constructor; congruence.
+Qed.
+Lemma Neqb_sp a b : reflect (a = b) (N.eqb a b).
+Proof. apply N.eqb_spec. Qed.
+
+(* ---- the file system: reads of the accessors after the updates ----------------------------------- *)
+Lemma wget_wput f p e q : wget (wput f p e) q = if beqb p q then Some e else wget f q.
+Proof. unfold wget, wput, set_ws; cbn [ws]. apply (@get_put _ _ _ beqb_spec). Qed.
+Lemma wget_wdel f p q : wget (wdel f p) q = if beqb p q then None else wget f q.
+Proof. unfold wget, wdel, set_ws; cbn [ws]. apply (@get_del _ _ _ beqb_spec). Qed.
+Lemma oget_odel f a b : oget (odel f a) b = if caddr_eqb a b then None else oget f b.
+Proof. unfold oget, odel, set_objs; cbn [objs]. apply (@get_del _ _ _ caddr_eqb_spec). Qed.
+Lemma iget_iput f i n j : iget (iput f i n) j = if N.eqb i j then Some n else iget f j.
+Proof. unfold iget, iput, set_inodes; cbn [inodes]. apply (@get_put _ _ _ Neqb_sp). Qed.
+
+(* the inode table only has numbers below next_ino: what fresh_ino returns is unused *)
+Definition wf_fs (f : fsys) : Prop := forall i n, iget f i = Some n -> (i < next_ino f)%N.
+
+(* the cache object at address a is a regular file with bytes c *)
+Definition holds (f : fsys) (a : caddr) (c : bytes) : Prop :=
+  exists i n, oget f a = Some (EFile i) /\ iget f i = Some n /\ i_bytes n = c.
+
+Lemma holds_obj_read f a c : holds f a c -> obj_read f a = Some c.
+Proof.
+  intros (i & n & Ho & Hi & Hb). unfold obj_read, read_entry. rewrite Ho. cbn [resolve link_fuel]. rewrite Hi. now rewrite Hb.
+Qed.
+
+(* what a step leaves alone: the object table, the object directories, every existing inode *)
+Record fs_frame (f f' : fsys) : Prop := {
+  fr_objs : objs f' = objs f;
+  fr_dirw : dirw f' = dirw f;
+  fr_inodes : forall i n, iget f i = Some n -> iget f' i = Some n;
+  fr_next : (next_ino f <= next_ino f')%N;
+  fr_wf : wf_fs f'
+}.
+Lemma fs_frame_refl f : wf_fs f -> fs_frame f f.
+Proof. intros; constructor; auto; lia. Qed.
+Lemma fs_frame_trans f g h : fs_frame f g -> fs_frame g h -> fs_frame f h.
+Proof.
+  intros [A B C D E] [A' B' C' D' E']; constructor; try congruence; auto. lia.
+Qed.
+Lemma frame_holds f f' a c : fs_frame f f' -> holds f a c -> holds f' a c.
+Proof.
+  intros [A B Ci D E] (i & n & Ho & Hi & Hb). exists i, n. unfold oget in *. rewrite A. auto.
+Qed.
+Lemma frame_oget f f' a : fs_frame f f' -> oget f' a = oget f a.
+Proof. intros [A B Ci D E]; unfold oget; now rewrite A. Qed.
+
+(* ws-only updates *)
+Lemma frame_wdel f p : wf_fs f -> fs_frame f (wdel f p).
+Proof. intros W; constructor; cbn; auto; lia. Qed.
+Lemma frame_wput f p e : wf_fs f -> fs_frame f (wput f p e).
+Proof. intros W; constructor; cbn; auto; lia. Qed.
+
+(* ---- recheck_from_cache ---------------------------------------------------------------------------- *)
+Ltac dm := match goal with |- context [match ?x with _ => _ end] => destruct x eqn:? end.
+Ltac inv H := injection H as <- <- || injection H; intros; subst.
+
+Lemma wf_tick f : wf_fs f -> wf_fs (tick f).
+Proof. intros W i n; cbn. apply W. Qed.
+
+Lemma fresh_copy_frame f p c :
+  wf_fs f ->
+  let i := next_ino f in
+  let f1 := snd (fresh_ino (tick f)) in
+  fs_frame f (wput (iput f1 i {| i_bytes := c; i_w := true; i_mt := clock f1 |}) p (EFile i)).
+Proof.
+  intros W i f1. constructor; cbn; auto.
+  - intros j n Hj. unfold iget; cbn [inodes iput set_inodes wput set_ws].
+    change (get N.eqb (put N.eqb N.ltb (inodes f) (next_ino f) {| i_bytes := c; i_w := true; i_mt := N.succ (clock f) |}) j = Some n).
+    rewrite (@get_put _ _ _ Neqb_sp). destruct (N.eqb_spec (next_ino f) j) as [E|E]; [|exact Hj].
+    apply W in Hj. lia.
+  - lia.
+  - intros j n. unfold iget; cbn [inodes iput set_inodes wput set_ws next_ino].
+    change (get N.eqb (put N.eqb N.ltb (inodes f) (next_ino f) {| i_bytes := c; i_w := true; i_mt := N.succ (clock f) |}) j = Some n -> (j < N.succ (next_ino f))%N).
+    rewrite (@get_put _ _ _ Neqb_sp). destruct (N.eqb_spec (next_ino f) j) as [E|E]; intros H.
+    + lia.
+    + apply W in H. lia.
+Qed.
+
+Lemma rfc_frame f p a m f' oc :
+  wf_fs f -> recheck_from_cache f p a m = (f', oc) ->
+  fs_frame f f' /\ (forall q, q <> p -> wget f' q = wget f q).
+Proof.
+  intros W. unfold recheck_from_cache. cbv zeta.
+  set (f0 := if ws_exists f p then wdel f p else f).
+  assert (F0 : fs_frame f f0) by (unfold f0; destruct (ws_exists f p); [apply frame_wdel | apply fs_frame_refl]; auto).
+  assert (W0 : forall q, q <> p -> wget f0 q = wget f q).
+  { intros q Hq; unfold f0; destruct (ws_exists f p); auto. rewrite wget_wdel. destruct (beqb_spec p q); congruence. }
+  assert (Wf0 : wf_fs f0) by (destruct F0; auto).
+  assert (PUT : forall e, fs_frame f (wput f0 p e) /\ (forall q, q <> p -> wget (wput f0 p e) q = wget f q)).
+  { intros e; split; [eapply fs_frame_trans; [exact F0| apply frame_wput; auto]|].
+    intros q Hq. rewrite wget_wput. destruct (beqb_spec p q); [congruence|auto]. }
+  destruct m.
+  1,4: (destruct (obj_read f0 a) as [c|]; [|intros H; inv H; auto];
+        assert (CP : forall f'' oc', (let '(i, f1) := fresh_ino (tick f0) in
+                   (wput (iput f1 i {| i_bytes := c; i_w := true; i_mt := clock f1 |}) p (EFile i), Ok)) = (f'', oc') ->
+                   fs_frame f f'' /\ (forall q, q <> p -> wget f'' q = wget f q));
+        [ intros f'' oc' H; cbn [fresh_ino tick next_ino] in H; inv H; split;
+          [ eapply fs_frame_trans; [exact F0|]; apply (fresh_copy_frame f0 p c Wf0)
+          | intros q Hq; rewrite wget_wput; destruct (beqb_spec p q); [congruence|]; change (wget f0 q = wget f q); auto ]
+        | destruct (wget f0 p) as [[j|b]|]; [apply CP | intros H; inv H; auto | apply CP] ]).
+  - destruct (wget f0 p) as [e0|]; [intros H; inv H; auto|].
+    destruct (oget f0 a) as [[i|b]|]; intros H; inv H; auto; apply PUT.
+  - destruct (wget f0 p) as [e0|]; intros H; inv H; auto; apply PUT.
+Qed.
+
+Lemma resolve_objs f f' k e : objs f' = objs f -> resolve f' k e = resolve f k e.
+Proof.
+  intros E; revert e; induction k as [|k IH]; intros [i|b]; cbn [resolve]; auto.
+  unfold oget; rewrite E. destruct (get caddr_eqb (objs f) b); auto.
+Qed.
+Lemma resolve_file f k i : resolve f k (EFile i) = Some i.
+Proof. destruct k; reflexivity. Qed.
+
+Lemma holds_frame0 f p a c : wf_fs f -> holds f a c -> holds (if ws_exists f p then wdel f p else f) a c.
+Proof. intros W H; destruct (ws_exists f p); exact H. Qed.
+
+Lemma ws_read_wput_file g p i n c :
+  iget g i = Some n -> i_bytes n = c -> ws_read (wput g p (EFile i)) p = Some c.
+Proof.
+  intros Hi Hb. unfold ws_read. rewrite wget_wput, beqb_refl. unfold read_entry. rewrite resolve_file.
+  change (iget (wput g p (EFile i)) i) with (iget g i). rewrite Hi. now rewrite Hb.
+Qed.
+
+(* a successful recheck makes the path read the bytes of the object *)
+Lemma rfc_reads f p a m f' c :
+  wf_fs f -> holds f a c -> recheck_from_cache f p a m = (f', Ok) -> ws_read f' p = Some c.
+Proof.
+  intros W H. unfold recheck_from_cache. cbv zeta.
+  pose proof (holds_frame0 f p a c W H) as H0.
+  set (f0 := if ws_exists f p then wdel f p else f) in *.
+  destruct H0 as (i & n & Ho & Hi & Hb).
+  assert (R : obj_read f0 a = Some c) by (apply holds_obj_read; exists i, n; auto).
+  destruct m.
+  1,4: (rewrite R;
+        assert (CP : forall f'', (let '(j, f1) := fresh_ino (tick f0) in
+                   (wput (iput f1 j {| i_bytes := c; i_w := true; i_mt := clock f1 |}) p (EFile j), Ok)) = (f'', Ok) ->
+                   ws_read f'' p = Some c);
+        [ intros f'' E; cbn [fresh_ino tick next_ino] in E; injection E as <-;
+          eapply ws_read_wput_file; [rewrite iget_iput, N.eqb_refl; reflexivity | reflexivity]
+        | destruct (wget f0 p) as [[j|b]|]; [apply CP | discriminate | apply CP] ]).
+  - destruct (wget f0 p); [discriminate|]. rewrite Ho. intros E; injection E as <-.
+    eapply ws_read_wput_file; eauto.
+  - destruct (wget f0 p); [discriminate|]. intros E; injection E as <-.
+    unfold ws_read. rewrite wget_wput, beqb_refl. unfold read_entry, link_fuel. cbn [resolve].
+    change (oget (wput f0 p (ELink a)) a) with (oget f0 a). rewrite Ho.
+    change (iget (wput f0 p (ELink a)) i) with (iget f0 i). rewrite Hi. now rewrite Hb.
+Qed.
+
+(* ... and as a copy it is a fresh, writable, private inode *)
+Lemma rfc_copy_entry f p a f' c :
+  wf_fs f -> holds f a c -> recheck_from_cache f p a Copy = (f', Ok) ->
+  wget f' p = Some (EFile (next_ino f)) /\
+  iget f' (next_ino f) = Some {| i_bytes := c; i_w := true; i_mt := N.succ (clock f) |} /\
+  next_ino f' = N.succ (next_ino f).
+Proof.
+  intros W H. unfold recheck_from_cache. cbv zeta.
+  pose proof (holds_frame0 f p a c W H) as H0.
+  assert (NX : next_ino (if ws_exists f p then wdel f p else f) = next_ino f) by (destruct (ws_exists f p); reflexivity).
+  assert (CK : clock (if ws_exists f p then wdel f p else f) = clock f) by (destruct (ws_exists f p); reflexivity).
+  set (f0 := if ws_exists f p then wdel f p else f) in *.
+  rewrite (holds_obj_read _ _ _ H0).
+  assert (CP : forall f'', (let '(j, f1) := fresh_ino (tick f0) in
+                   (wput (iput f1 j {| i_bytes := c; i_w := true; i_mt := clock f1 |}) p (EFile j), Ok)) = (f'', Ok) ->
+                   wget f'' p = Some (EFile (next_ino f)) /\
+                   iget f'' (next_ino f) = Some {| i_bytes := c; i_w := true; i_mt := N.succ (clock f) |} /\
+                   next_ino f'' = N.succ (next_ino f)).
+  { intros f'' E; cbn [fresh_ino tick next_ino clock] in E; injection E as <-. rewrite NX, CK.
+    split; [rewrite wget_wput, beqb_refl; reflexivity|]. split; [|reflexivity].
+    change (iget (iput (snd (fresh_ino (tick f0))) (next_ino f) {| i_bytes := c; i_w := true; i_mt := N.succ (clock f) |}) (next_ino f) = Some {| i_bytes := c; i_w := true; i_mt := N.succ (clock f) |}).
+    rewrite iget_iput, N.eqb_refl. reflexivity. }
+  destruct (wget f0 p) as [[j|b]|]; [apply CP | discriminate | apply CP].
+Qed.
+
+(* when it succeeds: the object is there and no dangling link sits at the path *)
+Lemma rfc_succeeds f p a m c :
+  wf_fs f -> holds f a c -> (ws_exists f p = true \/ wget f p = None) ->
+  exists f', recheck_from_cache f p a m = (f', Ok).
+Proof.
+  intros W H Hp. unfold recheck_from_cache. cbv zeta.
+  pose proof (holds_frame0 f p a c W H) as H0.
+  assert (N0 : wget (if ws_exists f p then wdel f p else f) p = None).
+  { destruct (ws_exists f p) eqn:E; [rewrite wget_wdel, beqb_refl; reflexivity|]. destruct Hp; [discriminate|auto]. }
+  set (f0 := if ws_exists f p then wdel f p else f) in *.
+  destruct H0 as (i & n & Ho & Hi & Hb).
+  assert (R : obj_read f0 a = Some c) by (apply holds_obj_read; exists i, n; auto).
+  destruct m; rewrite ?R, N0, ?Ho; cbn [fresh_ino tick]; eauto.
+Qed.
+
+(* ---- records ------------------------------------------------------------------------------------------ *)
+Definition paths_unique (l : list (N * frec)) : Prop :=
+  forall e1 x1 e2 x2, In (e1, x1) l -> In (e2, x2) l -> r_path x1 = r_path x2 -> e1 = e2.
+Record wf_recs (b : repo) : Prop := {
+  wk : NoDup (keys (recs b));
+  wp : paths_unique (recs b);
+  we : forall e x, In (e, x) (recs b) -> (e < next_ent b)%N
+}.
+
+Lemma find_path_In l p e x : find_path l p = Some (e, x) -> In (e, x) l /\ r_path x = p.
+Proof.
+  induction l as [|[e0 x0] t IH]; cbn; [discriminate|].
+  destruct (beqb_spec (r_path x0) p) as [E|E].
+  - intros H; injection H as <- <-. auto.
+  - intros H; destruct (IH H); auto.
+Qed.
+Lemma find_path_None l p : find_path l p = None -> forall e x, In (e, x) l -> r_path x <> p.
+Proof.
+  induction l as [|[e0 x0] t IH]; cbn; [tauto|].
+  destruct (beqb_spec (r_path x0) p) as [E|E]; [discriminate|].
+  intros H e x [I|I]; [injection I as <- <-; auto | eauto].
+Qed.
+Lemma find_path_some_of_In l p e x : In (e, x) l -> r_path x = p -> exists ex, find_path l p = Some ex.
+Proof.
+  intros I E. destruct (find_path l p) eqn:F; [eauto|]. exfalso. eapply find_path_None; eauto.
+Qed.
+Lemma In_get {V} (l : list (N * V)) e x : NoDup (keys l) -> (In (e, x) l <-> get N.eqb l e = Some x).
+Proof. intros ND; split; [apply (@In_get_nodup _ _ _ Neqb_sp); auto | apply (@get_In _ _ _ Neqb_sp)]. Qed.
+Lemma find_path_unique b p e x :
+  wf_recs b -> In (e, x) (recs b) -> r_path x = p -> find_path (recs b) p = Some (e, x).
+Proof.
+  intros [K P _] I E. destruct (find_path_some_of_In _ _ _ _ I E) as [[e' x'] F].
+  destruct (find_path_In _ _ _ _ F) as [I' E'].
+  assert (e' = e) by (eapply P; eauto; congruence). subst e'.
+  apply (In_get _ _ _ K) in I. apply (In_get _ _ _ K) in I'. rewrite F. congruence.
+Qed.
+
+Lemma In_put {V} (l : list (N * V)) e y k v : NoDup (keys l) ->
+  (In (k, v) (put N.eqb N.ltb l e y) <-> (k = e /\ v = y) \/ (k <> e /\ In (k, v) l)).
+Proof.
+  intros ND. rewrite (In_get _ _ _ (@nodup_put _ _ _ Neqb_sp N.ltb l e y ND)), (In_get _ _ _ ND).
+  rewrite (@get_put _ _ _ Neqb_sp). destruct (N.eqb_spec e k) as [<-|Hne].
+  - split; [intros H; injection H as <-; auto | intros [[_ ->]|[H _]]; [auto|congruence]].
+  - split; [intros H; right; split; [congruence|auto] | intros [[H _]|[_ H]]; [congruence|auto]].
+Qed.
+Lemma length_put_existing (l : list (N * frec)) e y x : NoDup (keys l) -> In (e, x) l ->
+  length (put N.eqb N.ltb l e y) = length l.
+Proof.
+  intros ND I. unfold put.
+  assert (LI : forall m, length (ins_sorted N.ltb m e y) = S (length m)).
+  { induction m as [|[k v] t IH]; cbn; auto. destruct (N.ltb e k); cbn; auto. }
+  rewrite LI. clear LI. revert ND I. induction l as [|[k v] t IH]; cbn; [tauto|].
+  intros ND [I|I].
+  - injection I as -> ->. rewrite N.eqb_refl. inversion ND as [|? ? Hn ND']; subst.
+    assert (D : del N.eqb t e = t).
+    { clear -Hn. induction t as [|[k v] t IH]; cbn; auto. cbn in Hn.
+      destruct (N.eqb_spec k e) as [->|]; [tauto|]. f_equal. apply IH. tauto. }
+    now rewrite D.
+  - inversion ND as [|? ? Hn ND']; subst. destruct (N.eqb_spec k e) as [->|Hne].
+    + exfalso. apply Hn. change e with (fst (e, x)). now apply in_map.
+    + cbn. f_equal. rewrite <- (IH ND' I). reflexivity.
+Qed.
+
+Lemma wf_recs_ext b b' : recs b' = recs b -> (next_ent b <= next_ent b')%N -> wf_recs b -> wf_recs b'.
+Proof.
+  intros E L [K P F]; constructor; rewrite ?E; auto. intros e x I. specialize (F e x I). lia.
+Qed.
+
+(* add_parent_dirs only creates directory records (and consumes entity numbers) *)
+Lemma add_parent_dirs_base r p :
+  recs (base (add_parent_dirs r p)) = recs (base r) /\ fs (base (add_parent_dirs r p)) = fs (base r) /\
+  (next_ent (base r) <= next_ent (base (add_parent_dirs r p)))%N.
+Proof.
+  unfold add_parent_dirs. generalize (parents p) as l. intros l; revert r.
+  induction l as [|q t IH]; intros r; cbn [fold_left]; [repeat split; lia|].
+  match goal with |- context [fold_left ?f t ?r1] => specialize (IH r1) end.
+  destruct (stored r q); [exact IH|].
+  cbn [base set_next_ent recs fs next_ent] in IH. destruct IH as (A & B & C). repeat split; auto. lia.
+Qed.
+
+(* ---- copy: the records ------------------------------------------------------------------------------------ *)
+Definition plan_acc (l : list (N * frec)) (c : cpair) : Prop :=
+  match cd_ent c with
+  | Some e => exists y, In (e, y) l /\ r_path y = cd_path c
+  | None => forall e y, In (e, y) l -> r_path y <> cd_path c
+  end.
+Definition copied_as (o : copy_opts) (x y : frec) (d : path) : Prop :=
+  r_path y = d /\ (forall dg, r_digest x = Some dg -> r_digest y = Some dg) /\ r_tob y = r_tob x /\
+  r_method y = match c_as o with Some m => m | None => r_method x end /\ r_meta y = r_meta x.
+
+Lemma plan_pair_acc r x d : plan_acc (recs (base r)) (plan_pair r x d).
+Proof.
+  unfold plan_acc, plan_pair; cbn [cd_ent cd_path].
+  destruct (find_path (recs (base r)) d) as [[e y]|] eqn:F.
+  - destruct (find_path_In _ _ _ _ F); eauto.
+  - apply find_path_None; auto.
+Qed.
+
+Lemma copy_records_one_spec o r c :
+  wf_recs (base r) -> plan_acc (recs (base r)) c ->
+  let r' := copy_records_one o r c in
+  wf_recs (base r') /\ xfs r' = xfs r /\
+  (exists e y, In (e, y) (recs (base r')) /\ copied_as o (cs_rec c) y (cd_path c)) /\
+  (forall e y, r_path y <> cd_path c -> (In (e, y) (recs (base r')) <-> In (e, y) (recs (base r)))).
+Proof.
+  intros W A. destruct W as [K P F]. unfold copy_records_one. cbv zeta.
+  set (x := cs_rec c). set (b := base r).
+  destruct (cd_ent c) as [e|] eqn:CE; unfold plan_acc in A; rewrite CE in A.
+  - (* the destination entity is reused *)
+    destruct A as (y0 & I0 & E0).
+    match goal with |- context [mk_frec ?a1 ?a2 ?a3 ?a4 ?a5 ?a6] => set (y := mk_frec a1 a2 a3 a4 a5 a6) end.
+    match goal with |- context [add_parent_dirs ?rr _] => set (r1 := rr) end.
+    destruct (add_parent_dirs_base r1 (cd_path c)) as (R & Fs & Nx).
+    assert (R1 : recs (base r1) = put N.eqb N.ltb (recs b) e y) by reflexivity.
+    assert (INP : forall k v, In (k, v) (recs (base (add_parent_dirs r1 (cd_path c)))) <-> (k = e /\ v = y) \/ (k <> e /\ In (k, v) (recs b))).
+    { intros; rewrite R, R1. apply In_put; auto. }
+    split; [|split; [|split]].
+    + apply (wf_recs_ext (base r1)); auto. constructor.
+      * rewrite R1. apply (@nodup_put _ _ _ Neqb_sp); auto.
+      * rewrite R1. intros e1 x1 e2 x2 I1 I2 EP. apply In_put in I1; auto. apply In_put in I2; auto.
+        destruct I1 as [[-> ->]|[N1 I1]], I2 as [[-> ->]|[N2 I2]]; auto.
+        -- symmetry. eapply P; [exact I2|exact I0|]. cbn in EP. congruence.
+        -- eapply P; [exact I1|exact I0|]. cbn in EP. congruence.
+        -- eapply P; eauto.
+      * rewrite R1. intros k v I. apply In_put in I; auto. change (next_ent (base r1)) with (next_ent b).
+        destruct I as [[-> ->]|[_ I]]; eauto.
+    + unfold xfs. rewrite Fs. reflexivity.
+    + exists e, y. split; [apply INP; auto|]. unfold copied_as, y; cbn. repeat split; auto.
+      intros dg ->; reflexivity.
+    + intros k v NP. rewrite INP. split.
+      * intros [[-> ->]|[_ I]]; [cbn in NP; congruence|auto].
+      * intros I. right. split; auto. intros ->. apply NP. 
+        apply (In_get _ _ _ K) in I. apply (In_get _ _ _ K) in I0. congruence.
+  - (* a new entity *)
+    match goal with |- context [mk_frec ?a1 ?a2 ?a3 ?a4 ?a5 ?a6] => set (y := mk_frec a1 a2 a3 a4 a5 a6) end.
+    match goal with |- context [add_parent_dirs ?rr _] => set (r1 := rr) end.
+    destruct (add_parent_dirs_base r1 (cd_path c)) as (R & Fs & Nx).
+    set (e := next_ent b) in *.
+    assert (R1 : recs (base r1) = put N.eqb N.ltb (recs b) e y) by reflexivity.
+    assert (NE : forall v, ~ In (e, v) (recs b)) by (intros v I; apply F in I; unfold e, b in I; lia).
+    assert (INP : forall k v, In (k, v) (recs (base (add_parent_dirs r1 (cd_path c)))) <-> (k = e /\ v = y) \/ (k <> e /\ In (k, v) (recs b))).
+    { intros; rewrite R, R1. apply In_put; auto. }
+    split; [|split; [|split]].
+    + apply (wf_recs_ext (base r1)); auto. constructor.
+      * rewrite R1. apply (@nodup_put _ _ _ Neqb_sp); auto.
+      * rewrite R1. intros e1 x1 e2 x2 I1 I2 EP. apply In_put in I1; auto. apply In_put in I2; auto.
+        destruct I1 as [[-> ->]|[N1 I1]], I2 as [[-> ->]|[N2 I2]]; auto.
+        -- exfalso. eapply A; [exact I2|]. cbn in EP. congruence.
+        -- exfalso. eapply A; [exact I1|]. cbn in EP. congruence.
+        -- eapply P; eauto.
+      * rewrite R1. intros k v I. apply In_put in I; auto. change (next_ent (base r1)) with (N.succ e).
+        destruct I as [[-> ->]|[_ I]]; [lia|]. apply F in I. unfold e, b. lia.
+    + unfold xfs. rewrite Fs. reflexivity.
+    + exists e, y. split; [apply INP; auto|]. unfold copied_as, y; cbn. repeat split; auto.
+      intros dg ->; reflexivity.
+    + intros k v NP. rewrite INP. split.
+      * intros [[-> ->]|[_ I]]; [cbn in NP; congruence|auto].
+      * intros I. right. split; auto. intros ->. eapply NE; eauto.
+Qed.
+
+Lemma plan_acc_transfer l l' c :
+  (forall e y, r_path y = cd_path c -> (In (e, y) l' <-> In (e, y) l)) -> plan_acc l c -> plan_acc l' c.
+Proof.
+  intros T. unfold plan_acc. destruct (cd_ent c) as [e|].
+  - intros (y & I & E). exists y. split; auto. apply T; auto.
+  - intros H e y I E. apply (H e y); auto. apply T; auto.
+Qed.
+
+Lemma copy_records_spec o plan : forall r,
+  wf_recs (base r) -> NoDup (map cd_path plan) -> (forall c, In c plan -> plan_acc (recs (base r)) c) ->
+  let r' := fold_left (copy_records_one o) plan r in
+  wf_recs (base r') /\ xfs r' = xfs r /\
+  (forall c, In c plan -> exists e y, In (e, y) (recs (base r')) /\ copied_as o (cs_rec c) y (cd_path c)) /\
+  (forall e y, ~ In (r_path y) (map cd_path plan) -> (In (e, y) (recs (base r')) <-> In (e, y) (recs (base r)))).
+Proof.
+  induction plan as [|c t IH]; intros r W ND A; cbn [fold_left].
+  - split; [exact W|]. split; [reflexivity|]. split; [intros c []|tauto].
+  - cbn [map] in ND. inversion ND as [|? ? Hn ND']; subst.
+    destruct (copy_records_one_spec o r c W (A c (or_introl eq_refl))) as (W1 & F1 & (e & y & I1 & C1) & O1).
+    set (r1 := copy_records_one o r c) in *.
+    assert (A1 : forall c', In c' t -> plan_acc (recs (base r1)) c').
+    { intros c' I'. apply (plan_acc_transfer (recs (base r))); [|apply A; now right].
+      intros e' y' E'. apply O1. rewrite E'. intros EQ. apply Hn. rewrite <- EQ. now apply in_map. }
+    destruct (IH r1 W1 ND' A1) as (W2 & F2 & C2 & O2).
+    split; [exact W2|]. split; [congruence|]. split.
+    + intros c' [<-|I']; [|auto]. exists e, y. split; auto. apply O2; auto.
+      destruct C1 as (EP & _). now rewrite EP.
+    + intros e' y' NI. cbn [map In] in NI. rewrite O2 by tauto. apply O1. intros EQ; apply NI; left; congruence.
+Qed.
+
+(* ---- recheck_dests -------------------------------------------------------------------------------------------- *)
+Lemma ws_read_frame f f' p c :
+  fs_frame f f' -> wget f' p = wget f p -> ws_read f p = Some c -> ws_read f' p = Some c.
+Proof.
+  intros [A B Ci D E] Hw. unfold ws_read. rewrite Hw. destruct (wget f p) as [en|]; [|discriminate].
+  unfold read_entry. rewrite (resolve_objs f f' link_fuel en A).
+  destruct (resolve f link_fuel en) as [i|]; [|discriminate].
+  destruct (iget f i) as [n|] eqn:Hi; [|discriminate]. now rewrite (Ci _ _ Hi).
+Qed.
+Lemma ws_exists_frame f f' p :
+  fs_frame f f' -> wget f' p = wget f p -> ws_exists f' p = ws_exists f p.
+Proof.
+  intros [A B Ci D E] Hw. unfold ws_exists. rewrite Hw. destruct (wget f p) as [en|]; auto.
+  now rewrite (resolve_objs f f' link_fuel en A).
+Qed.
+
+Ltac rsplit := repeat match goal with |- _ /\ _ => split end.
+
+Lemma recheck_dests_spec : forall ps r r' oc,
+  wf_fs (xfs r) -> recheck_dests r ps = (r', oc) ->
+  recs (base r') = recs (base r) /\ next_ent (base r') = next_ent (base r) /\ dirs r' = dirs r /\
+  fs_frame (xfs r) (xfs r') /\
+  (forall q, ~ In q ps -> wget (xfs r') q = wget (xfs r) q) /\
+  (oc = Ok -> NoDup ps -> forall p e x d c, In p ps -> find_path (recs (base r)) p = Some (e, x) ->
+     r_digest x = Some d -> holds (xfs r) (cache_addr p d) c -> ws_read (xfs r') p = Some c).
+Proof.
+  induction ps as [|p t IH]; intros r r' oc W; cbn [recheck_dests].
+  - intros E; injection E as <- <-. rsplit; auto using fs_frame_refl. intros _ _ p e x d c [].
+  - assert (TRIV : forall oc', oc' <> Ok -> (r, oc') = (r', oc) ->
+        recs (base r') = recs (base r) /\ next_ent (base r') = next_ent (base r) /\ dirs r' = dirs r /\
+        fs_frame (xfs r) (xfs r') /\ (forall q, ~ In q (p :: t) -> wget (xfs r') q = wget (xfs r) q) /\
+        (oc = Ok -> NoDup (p :: t) -> forall p0 e x d c, In p0 (p :: t) -> find_path (recs (base r)) p0 = Some (e, x) ->
+           r_digest x = Some d -> holds (xfs r) (cache_addr p0 d) c -> ws_read (xfs r') p0 = Some c)).
+    { intros oc' NO E; injection E as <- <-. rsplit; auto using fs_frame_refl. intros ->; congruence. }
+    destruct (find_path (recs (base r)) p) as [[e0 x0]|] eqn:FP; [|apply TRIV; discriminate].
+    destruct (r_digest x0) as [d0|] eqn:RD; [|apply TRIV; discriminate].
+    destruct (recheck_from_cache (xfs r) p (cache_addr p d0) (r_method x0)) as [f1 oc1] eqn:RF.
+    destruct (rfc_frame _ _ _ _ _ _ W RF) as (FR & WS).
+    assert (W1 : wf_fs f1) by (destruct FR; auto).
+    destruct oc1.
+    + (* this destination is done, the others follow *)
+      intros E. specialize (IH (set_xfs r f1) r' oc W1 E).
+      destruct IH as (R & NX & DS & FR' & WS' & RD').
+      change (xfs (set_xfs r f1)) with f1 in *. change (recs (base (set_xfs r f1))) with (recs (base r)) in *.
+      rsplit; auto.
+      * eapply fs_frame_trans; eauto.
+      * intros q NI. cbn [In] in NI. rewrite WS' by tauto. apply WS. intros ->; tauto.
+      * intros OK ND p0 e x d c IN FP0 RD0 H. inversion ND as [|? ? Hn ND']; subst.
+        destruct IN as [<-|IN].
+        -- rewrite FP in FP0. injection FP0 as <- <-. rewrite RD in RD0. injection RD0 as <-.
+           eapply ws_read_frame; [exact FR'|apply WS'; auto|]. exact (rfc_reads (xfs r) p (cache_addr p d0) (r_method x0) f1 c W H RF).
+        -- eapply RD'; eauto. eapply frame_holds; eauto.
+    + intros E; injection E as <- <-. change (xfs (set_xfs r f1)) with f1. rsplit; auto.
+      * intros q NI. apply WS. intros ->; apply NI; now left.
+      * discriminate.
+    + intros E; injection E as <- <-. change (xfs (set_xfs r f1)) with f1. rsplit; auto.
+      * intros q NI. apply WS. intros ->; apply NI; now left.
+      * discriminate.
+Qed.
+
+Lemma recheck_dests_oc : forall ps r r' oc, recheck_dests r ps = (r', oc) -> oc = Ok \/ oc = Panic.
+Proof.
+  induction ps as [|p t IH]; intros r r' oc; cbn [recheck_dests].
+  - intros E; injection E as <- <-; auto.
+  - destruct (find_path (recs (base r)) p) as [[e0 x0]|]; [|intros E; injection E as <- <-; auto].
+    destruct (r_digest x0); [|intros E; injection E as <- <-; auto].
+    destruct (recheck_from_cache (xfs r) p (cache_addr p d) (r_method x0)) as [f1 [| |]]; eauto;
+      intros E; injection E as <- <-; auto.
+Qed.
+
+Lemma same_ext_same_addr p q d : extension p = extension q -> cache_addr p d = cache_addr q d.
+Proof. unfold cache_addr; intros ->; reflexivity. Qed.
+
+(* ---- copy: the command ------------------------------------------------------------------------------------------ *)
+Definition copy_result (o : copy_opts) (r r' : xrepo) (oc : outcome) (c : cpair) : Prop :=
+  exists e y, In (e, y) (recs (base r')) /\ copied_as o (cs_rec c) y (cd_path c) /\
+  forall dg, r_digest (cs_rec c) = Some dg -> extension (cd_path c) = extension (r_path (cs_rec c)) ->
+    cache_addr (cd_path c) dg = cache_addr (r_path (cs_rec c)) dg /\
+    (c_no_recheck o = false -> oc <> Panic ->
+     forall b, holds (xfs r) (cache_addr (r_path (cs_rec c)) dg) b -> ws_read (xfs r') (cd_path c) = Some b).
+
+Lemma copy_apply_shares o r plan skipped r' oc :
+  wf_fs (xfs r) -> wf_recs (base r) -> NoDup (map cd_path plan) ->
+  (forall c, In c plan -> plan_acc (recs (base r)) c) ->
+  copy_apply o r plan skipped = (r', oc) ->
+  objs (xfs r') = objs (xfs r) /\ (forall a b, holds (xfs r) a b -> holds (xfs r') a b) /\
+  wf_recs (base r') /\ wf_fs (xfs r') /\
+  (forall e y, ~ In (r_path y) (map cd_path plan) -> (In (e, y) (recs (base r')) <-> In (e, y) (recs (base r)))) /\
+  (forall q, ~ In q (map cd_path plan) -> wget (xfs r') q = wget (xfs r) q) /\
+  forall c, In c plan -> copy_result o r r' oc c.
+Proof.
+  intros Wf Wr ND A. unfold copy_apply.
+  destruct (copy_records_spec o plan r Wr ND A) as (W1 & F1 & C1 & O1).
+  set (r1 := fold_left (copy_records_one o) plan r) in *.
+  destruct (c_no_recheck o) eqn:NR.
+  - intros E; injection E as <- <-. rewrite F1. rsplit; auto.
+    intros c I. destruct (C1 c I) as (e & y & IN & CA). exists e, y. rsplit; auto.
+    intros dg RD EX. split; [apply same_ext_same_addr; auto|intros X; congruence].
+  - destruct (recheck_dests r1 (map cd_path plan)) as [r2 oc2] eqn:RDs. intros E; injection E as <- <-.
+    assert (Wf1 : wf_fs (xfs r1)) by (rewrite F1; auto).
+    destruct (recheck_dests_spec _ _ _ _ Wf1 RDs) as (R & NX & DS & FR & WS & RD).
+    rewrite F1 in FR, WS.
+    assert (W2 : wf_recs (base r2)) by (apply (wf_recs_ext (base r1)); auto; lia).
+    rsplit; auto.
+    + destruct FR; auto.
+    + intros a b H. eapply frame_holds; eauto.
+    + destruct FR; auto.
+    + intros e y NI. rewrite R. auto.
+    + intros c I. destruct (C1 c I) as (e & y & IN & CA). exists e, y. rewrite R. rsplit; auto.
+      intros dg RDG EX. split; [apply same_ext_same_addr; auto|]. intros _ NP b H.
+      destruct (recheck_dests_oc _ _ _ _ RDs) as [-> | ->]; [|destruct skipped; cbn in NP; congruence].
+      destruct CA as (EP & DG & _).
+      eapply (RD eq_refl ND (cd_path c) e y dg b); [now apply in_map| apply find_path_unique; auto| auto|].
+      rewrite F1. rewrite (same_ext_same_addr _ _ dg EX). exact H.
+Qed.
+
+(* what copy_plan plans: accurate pairs whose sources are selected, recorded files *)
+Lemma copy_plan_pairs o src dst r plan sk :
+  copy_plan o src dst r = CPlanned plan sk ->
+  forall c, In c plan -> plan_acc (recs (base r)) c /\ (exists e, In (e, cs_rec c) (sources r src)) /\
+                         changed r (cs_rec c) = false /\
+                         cd_path c = (if ends_slash dst then dest_path (c_name_only o) (removelast dst) (cs_rec c) else dst) /\
+                         (c_cforce o = false -> pair_taken c = false /\ ws_lexists (xfs r) (cd_path c) = false).
+Proof.
+  unfold copy_plan.
+  assert (SRC : forall x, In x (map snd (sources r src)) -> exists e, In (e, x) (sources r src)).
+  { intros x I. apply in_map_iff in I. destruct I as ([e x'] & <- & I). eauto. }
+  assert (CHK : forall pl s, copy_checked o r pl s = CPlanned plan sk ->
+                pl = plan /\ s = sk /\ (c_cforce o = false -> forall c, In c plan -> pair_taken c = false -> ws_lexists (xfs r) (cd_path c) = false)).
+  { intros pl s. unfold copy_checked. destruct (negb (c_cforce o) && untracked_dest_exists r pl) eqn:U; [discriminate|].
+    intros E; injection E as <- <-. rsplit; auto. intros NF c I NT. rewrite NF in U. cbn in U.
+    destruct (ws_lexists (xfs r) (cd_path c)) eqn:L; auto.
+    assert (untracked_dest_exists r pl = true) by (apply existsb_exists; exists c; split; auto; rewrite NT, L; reflexivity). congruence. }
+  destruct (Nat.ltb 1 (length (map snd (sources r src))) && negb (ends_slash dst)); [discriminate|].
+  destruct (ends_slash dst).
+  - destruct (recorded_as_file r (removelast dst)); [discriminate|].
+    destruct (existsb (changed r) (map snd (sources r src))) eqn:CH; [discriminate|].
+    intros E. apply CHK in E. destruct E as (<- & <- & LX). intros c I. pose proof I as I0. apply filter_In in I. destruct I as (I & FI).
+    apply in_map_iff in I. destruct I as (x & <- & I). rsplit; auto using plan_pair_acc.
+    + cbn [cs_rec plan_pair]. destruct (changed r x) eqn:CX; auto.
+      assert (existsb (changed r) (map snd (sources r src)) = true) by (apply existsb_exists; eauto). congruence.
+    + intros NF. assert (NT : pair_taken (plan_pair r x (dest_path (c_name_only o) (removelast dst) x)) = false).
+      { rewrite NF in FI. cbn in FI. now destruct (pair_taken (plan_pair r x _)). }
+      split; auto.
+  - destruct (existsb (changed r) (map snd (sources r src))) eqn:CH; [discriminate|].
+    destruct (map snd (sources r src)) as [|x t] eqn:SR; [discriminate|].
+    destruct (pair_taken (plan_pair r x dst) && negb (c_cforce o)) eqn:PT; [discriminate|].
+    intros E. apply CHK in E. destruct E as (<- & <- & LX). intros c [<-|[]]. rsplit; auto using plan_pair_acc.
+    + apply SRC. now left.
+    + cbn [cs_rec plan_pair]. cbn [existsb] in CH. now destruct (changed r x).
+    + intros NF. assert (NT : pair_taken (plan_pair r x dst) = false).
+      { rewrite NF in PT. cbn in PT. now destruct (pair_taken (plan_pair r x dst)). }
+      split; auto. apply LX; auto. now left.
+Qed.
+
+Theorem copy_cmd_shares o src dst r r' oc plan sk :
+  wf_fs (xfs r) -> wf_recs (base r) ->
+  copy_plan o src dst r = CPlanned plan sk -> NoDup (map cd_path plan) ->
+  copy_cmd o src dst r = (r', oc) ->
+  objs (xfs r') = objs (xfs r) /\ (forall a b, holds (xfs r) a b -> holds (xfs r') a b) /\
+  wf_recs (base r') /\ wf_fs (xfs r') /\
+  forall c, In c plan -> copy_result o r r' oc c.
+Proof.
+  intros Wf Wr PL ND. unfold copy_cmd. rewrite PL. intros E.
+  destruct (copy_apply_shares o r plan sk r' oc Wf Wr ND (fun c I => proj1 (copy_plan_pairs _ _ _ _ _ _ PL c I)) E)
+    as (A & B & C & D & _ & _ & F). auto.
+Qed.
+
+(* refusals: nothing changes *)
+Lemma beqb_sym a b : beqb a b = beqb b a.
+Proof. destruct (beqb_spec a b), (beqb_spec b a); congruence. Qed.
+Lemma mem_paths_find l d :
+  mem d (map (fun ex : N * frec => r_path (snd ex)) l) = match find_path l d with Some _ => true | None => false end.
+Proof.
+  unfold mem. induction l as [|[e x] t IH]; cbn; auto. rewrite beqb_sym. destruct (beqb (r_path x) d); cbn; auto.
+Qed.
+Lemma mem_app d a b : mem d (a ++ b) = mem d a || mem d b.
+Proof. apply existsb_app. Qed.
+Lemma pair_taken_stored r x d : pair_taken (plan_pair r x d) = stored r d.
+Proof.
+  unfold pair_taken, plan_pair, stored, all_stored; cbn [cd_ent cd_isdir]. rewrite mem_app, mem_paths_find.
+  destruct (find_path (recs (base r)) d) as [[e y]|]; reflexivity.
+Qed.
+
+Lemma copy_refuses_modified o src dst r :
+  existsb (changed r) (map snd (sources r src)) = true -> copy_cmd o src dst r = (r, Err).
+Proof.
+  intros CH. unfold copy_cmd, copy_plan. rewrite CH.
+  destruct (Nat.ltb 1 (length (map snd (sources r src))) && negb (ends_slash dst)); auto.
+  destruct (ends_slash dst); auto. destruct (recorded_as_file r (removelast dst)); auto.
+Qed.
+Lemma copy_refuses_tracked o src dst r :
+  ends_slash dst = false -> c_cforce o = false -> stored r dst = true ->
+  exists oc, copy_cmd o src dst r = (r, oc) /\ oc <> Ok.
+Proof.
+  intros ES NF ST. unfold copy_cmd, copy_plan. rewrite ES, NF.
+  destruct (Nat.ltb 1 (length (map snd (sources r src))) && negb false); [exists Err; split; auto; discriminate|].
+  destruct (existsb (changed r) (map snd (sources r src))); [exists Err; split; auto; discriminate|].
+  destruct (map snd (sources r src)) as [|x t]; [exists Panic; split; auto; discriminate|].
+  rewrite pair_taken_stored, ST. cbn. exists Err; split; auto; discriminate.
+Qed.
+
+(* ---- move: the records ------------------------------------------------------------------------------------------ *)
+Definition moved (x : frec) (d : path) : frec := mk_frec d (r_meta x) (r_digest x) (r_hist x) (r_method x) (r_tob x).
+Definition ents (l : list (N * frec * path)) : list N := map (fun ed => fst (fst ed)) l.
+
+Lemma move_paths_spec l : forall r,
+  NoDup (keys (recs (base r))) -> NoDup (ents l) ->
+  let r' := fold_left move_path_one l r in
+  NoDup (keys (recs (base r'))) /\ xfs r' = xfs r /\ (next_ent (base r) <= next_ent (base r'))%N /\
+  (forall k v, In (k, v) (recs (base r')) <->
+      (exists x d, In (k, x, d) l /\ v = moved x d) \/ (~ In k (ents l) /\ In (k, v) (recs (base r)))) /\
+  ((forall e x d, In (e, x, d) l -> exists x0, In (e, x0) (recs (base r))) ->
+   length (recs (base r')) = length (recs (base r))).
+Proof.
+  induction l as [|[[e x] d] t IH]; intros r K ND; cbn [fold_left].
+  - rsplit; auto; try lia. intros k v; split; [intros I; right; split; auto|intros [(x & d & [] & _)|[_ I]]; auto].
+  - cbn [ents map fst] in ND. inversion ND as [|? ? Hn ND']; subst.
+    assert (EQ : move_path_one r (e, x, d) = add_parent_dirs (set_base r (rput (base r) e (moved x d))) d) by reflexivity.
+    rewrite EQ. set (r1 := set_base r (rput (base r) e (moved x d))).
+    destruct (add_parent_dirs_base r1 d) as (R & Fs & Nx).
+    assert (R1 : recs (base (add_parent_dirs r1 d)) = put N.eqb N.ltb (recs (base r)) e (moved x d)) by (rewrite R; reflexivity).
+    assert (K1 : NoDup (keys (recs (base (add_parent_dirs r1 d))))) by (rewrite R1; apply (@nodup_put _ _ _ Neqb_sp); auto).
+    destruct (IH (add_parent_dirs r1 d) K1 ND') as (K2 & F2 & N2 & C2 & L2).
+    rsplit; auto.
+    + rewrite F2. unfold xfs. rewrite Fs. reflexivity.
+    + change (next_ent (base r1)) with (next_ent (base r)) in Nx. lia.
+    + intros k v. rewrite C2, R1. split.
+      * intros [(x' & d' & I & ->)|[NI I]]; [left; exists x', d'; split; auto; now right|].
+        apply In_put in I; auto. destruct I as [[-> ->]|[NE I]].
+        -- left. exists x, d. split; auto. now left.
+        -- right. split; auto. cbn [ents map fst In]. intros [X|X]; [congruence|exact (NI X)].
+      * intros [(x' & d' & [I|I] & ->)|[NI I]].
+        -- injection I as <- <- <-. right. split; auto. apply In_put; auto.
+        -- left. eauto.
+        -- right. cbn [ents map fst In] in NI. split; [intros X; apply NI; right; exact X|]. apply In_put; auto. right; split; auto.
+    + intros EX. rewrite L2.
+      * rewrite R1. destruct (EX e x d (or_introl eq_refl)) as (x0 & I0). eapply length_put_existing; eauto.
+      * intros e' x' d' I'. destruct (EX e' x' d' (or_intror I')) as (x0 & I0). rewrite R1.
+        destruct (N.eq_dec e' e) as [->|NE]; [exists (moved x d)|exists x0]; apply In_put; auto.
+Qed.
+
+(* what a plan of move looks like *)
+Record move_plan_ok (r : xrepo) (l : list (N * frec * path)) : Prop := {
+  mp_in : forall e x d, In (e, x, d) l -> In (e, x) (recs (base r));
+  mp_new : forall e x d, In (e, x, d) l -> stored r d = false;
+  mp_inj : forall e1 x1 d1 e2 x2 d2, In (e1, x1, d1) l -> In (e2, x2, d2) l -> d1 = d2 -> e1 = e2;
+  mp_nodup : NoDup (ents l);
+  mp_unchanged : forall e x d, In (e, x, d) l -> changed r x = false;
+  mp_free : forall e x d, In (e, x, d) l -> ws_lexists (xfs r) d = false
+}.
+
+Lemma stored_false_no_record r d : stored r d = false -> forall e y, In (e, y) (recs (base r)) -> r_path y <> d.
+Proof.
+  unfold stored, all_stored. rewrite mem_app, mem_paths_find. intros H.
+  destruct (find_path (recs (base r)) d) eqn:F; [discriminate|]. apply find_path_None; auto.
+Qed.
+
+Lemma sublist_filter_nodup {A B} (f : A -> B) (p : A -> bool) (l : list A) : NoDup (map f l) -> NoDup (map f (filter p l)).
+Proof.
+  induction l as [|a t IH]; cbn; auto. intros ND; inversion ND as [|? ? Hn ND']; subst.
+  destruct (p a); cbn; auto. constructor; auto. intros I; apply Hn.
+  apply in_map_iff in I. destruct I as (a' & E & I). apply filter_In in I. rewrite <- E. apply in_map. tauto.
+Qed.
+
+Lemma join_inj dir p q : join dir p = join dir q -> p = q.
+Proof. unfold join. destruct dir; auto. intros H. apply app_inv_head in H. congruence. Qed.
+
+Lemma sources_in r src e x : In (e, x) (sources r src) -> In (e, x) (recs (base r)) /\ is_file x = true.
+Proof. unfold sources, select. intros I. apply filter_In in I. destruct I as (I & F). apply filter_In in I. tauto. Qed.
+Lemma sources_nodup r src : NoDup (keys (recs (base r))) -> NoDup (map fst (sources r src)).
+Proof. intros K. unfold sources, select. apply sublist_filter_nodup. apply sublist_filter_nodup. exact K. Qed.
+
+Lemma move_plan_is_ok src dst r l :
+  wf_recs (base r) -> move_plan src dst r = MPlanned l -> move_plan_ok r l.
+Proof.
+  intros [K P F]. unfold move_plan.
+  assert (CHK : forall l0, move_checked r l0 = MPlanned l -> l0 = l /\ forall e x d, In (e, x, d) l -> ws_lexists (xfs r) d = false).
+  { intros l0. unfold move_checked. destruct (existsb (fun ed : N * frec * path => ws_lexists (xfs r) (snd ed)) l0) eqn:U; [discriminate|].
+    intros E; injection E as <-. split; auto. intros e x d I. destruct (ws_lexists (xfs r) d) eqn:L; auto.
+    assert (existsb (fun ed : N * frec * path => ws_lexists (xfs r) (snd ed)) l0 = true) by (apply existsb_exists; exists (e, x, d); auto). congruence. }
+  destruct (Nat.ltb 1 (length (sources r src)) && negb (ends_slash dst)); [discriminate|].
+  destruct (ends_slash dst).
+  - destruct (recorded_as_file r (removelast dst)); [discriminate|].
+    destruct (existsb (fun ex => changed r (snd ex)) (sources r src)) eqn:CH; [discriminate|].
+    match goal with |- (if existsb ?f ?l0 then _ else _) = _ -> _ => destruct (existsb f l0) eqn:ST; [discriminate|] end.
+    intros E. apply CHK in E. destruct E as (<- & FREE).
+    assert (INV : forall e x d, In (e, x, d) (map (fun ex => (fst ex, snd ex, join (removelast dst) (r_path (snd ex)))) (sources r src)) ->
+                  In (e, x) (sources r src) /\ d = join (removelast dst) (r_path x)).
+    { intros e x d I. apply in_map_iff in I. destruct I as ([e' x'] & E & I). cbn in E. injection E as <- <- <-. auto. }
+    constructor.
+    + intros e x d I. apply INV in I. destruct I as (I & _). apply sources_in in I. tauto.
+    + intros e x d I. destruct (stored r d) eqn:S; auto.
+      assert (existsb (fun ed : N * frec * path => stored r (snd ed)) (map (fun ex => (fst ex, snd ex, join (removelast dst) (r_path (snd ex)))) (sources r src)) = true).
+      { apply existsb_exists. exists (e, x, d). split; auto. }
+      congruence.
+    + intros e1 x1 d1 e2 x2 d2 I1 I2 ED. apply INV in I1. apply INV in I2. destruct I1 as (I1 & ->), I2 as (I2 & ->).
+      apply join_inj in ED. apply sources_in in I1. apply sources_in in I2. eapply P; [apply I1|apply I2|auto].
+    + unfold ents. rewrite map_map. cbn [fst]. apply sources_nodup; auto.
+    + intros e x d I. apply INV in I. destruct I as (I & _). destruct (changed r x) eqn:C; auto.
+      assert (existsb (fun ex => changed r (snd ex)) (sources r src) = true) by (apply existsb_exists; exists (e, x); auto). congruence.
+    + exact FREE.
+  - destruct (existsb (fun ex => changed r (snd ex)) (sources r src)) eqn:CH; [discriminate|].
+    destruct (sources r src) as [|[e x] t] eqn:SR; [discriminate|].
+    destruct (stored r dst) eqn:ST; [discriminate|]. intros E. apply CHK in E. destruct E as (<- & FREE).
+    assert (I0 : In (e, x) (sources r src)) by (rewrite SR; now left).
+    constructor.
+    + intros e' x' d' [I|[]]. injection I as <- <- <-. apply sources_in in I0. tauto.
+    + intros e' x' d' [I|[]]. injection I as <- <- <-. auto.
+    + intros e1 x1 d1 e2 x2 d2 [I1|[]] [I2|[]] _. congruence.
+    + cbn. constructor; [tauto|constructor].
+    + intros e' x' d' [I|[]]. injection I as <- <- <-. cbn [existsb snd] in CH. now destruct (changed r x).
+    + exact FREE.
+Qed.
+
+(* ---- move: the loop over the sources (workspace only) ---------------------------------------------------------------- *)
+Lemma ws_exists_ext f g q : objs g = objs f -> wget g q = wget f q -> ws_exists g q = ws_exists f q.
+Proof.
+  intros A Hw. unfold ws_exists. rewrite Hw. destruct (wget f q) as [en|]; auto. now rewrite (resolve_objs f g link_fuel en A).
+Qed.
+Lemma ws_exists_none g q : wget g q = None -> ws_exists g q = false.
+Proof. unfold ws_exists; now intros ->. Qed.
+Lemma ws_exists_wdel f s q : ws_exists f q = false -> ws_exists (wdel f s) q = false.
+Proof.
+  intros H. destruct (beqb_spec s q) as [->|NE].
+  - apply ws_exists_none. now rewrite wget_wdel, beqb_refl.
+  - rewrite <- H. apply ws_exists_ext; auto. rewrite wget_wdel. destruct (beqb_spec s q); congruence.
+Qed.
+Lemma ws_exists_wput_other f d en q : d <> q -> ws_exists (wput f d en) q = ws_exists f q.
+Proof. intros NE. apply ws_exists_ext; auto. rewrite wget_wput. destruct (beqb_spec d q); congruence. Qed.
+
+Definition ws_only (f f' : fsys) : Prop := f' = set_ws f (ws f').
+Lemma ws_only_refl f : ws_only f f.
+Proof. unfold ws_only, set_ws. destruct f; reflexivity. Qed.
+Lemma ws_only_frame f f' : wf_fs f -> ws_only f f' -> fs_frame f f'.
+Proof. intros W ->. constructor; cbn; auto; lia. Qed.
+
+Section MoveLoop.
+Variable fl : flags.
+Variable o : move_opts.
+
+Lemma move_loop_ws_only : forall l f ups rechk f' res,
+  move_loop fl o f l ups rechk = (f', res) -> ws_only f f'.
+Proof.
+  induction l as [|[[e x] d] t IH]; intros f ups rechk f' res; cbn [move_loop].
+  - intros E; injection E as <- <-. apply ws_only_refl.
+  - assert (G : forall f1 u k, ws_only f f1 -> move_loop fl o f1 t u k = (f', res) -> ws_only f f').
+    { intros f1 u k A E. apply IH in E. unfold ws_only in *. rewrite E. rewrite A at 1. reflexivity. }
+    assert (D : ws_only f (wdel f (r_path x))) by reflexivity.
+    destruct (r_method x) eqn:SM; destruct (match m_as o with Some m => m | None => _ end) eqn:DM;
+      try (destruct (ws_exists f (r_path x)); apply G; [exact D | apply ws_only_refl]).
+    destruct (beqb (r_path x) d); [apply G, ws_only_refl|].
+    destruct (fixed_mv_absent fl && negb (ws_exists f (r_path x))); [apply G, ws_only_refl|].
+    destruct (wget f (r_path x)) as [en|]; [|intros E; injection E as <- <-; apply ws_only_refl].
+    destruct (m_no_recheck o); apply G; reflexivity.
+Qed.
+
+Lemma move_loop_stable : forall l f ups rechk f' res,
+  move_loop fl o f l ups rechk = (f', res) ->
+  forall q, (forall e x d, In (e, x, d) l -> d <> q) -> ws_exists f q = false -> ws_exists f' q = false.
+Proof.
+  induction l as [|[[e x] d] t IH]; intros f ups rechk f' res; cbn [move_loop].
+  - intros E; injection E as <- <-. auto.
+  - intros E q ND A.
+    assert (NDt : forall e' x' d', In (e', x', d') t -> d' <> q) by (intros; eapply ND; right; eauto).
+    assert (Dq : d <> q) by (eapply ND; left; eauto).
+    assert (G : forall f1 u k, ws_exists f1 q = false -> move_loop fl o f1 t u k = (f', res) -> ws_exists f' q = false).
+    { intros f1 u k A1 E1. eapply IH; eauto. }
+    revert E.
+    destruct (r_method x) eqn:SM; destruct (match m_as o with Some m => m | None => _ end) eqn:DM;
+      try (destruct (ws_exists f (r_path x)); apply G; auto using ws_exists_wdel).
+    destruct (beqb (r_path x) d); [apply G; auto|].
+    destruct (fixed_mv_absent fl && negb (ws_exists f (r_path x))); [apply G; auto|].
+    destruct (wget f (r_path x)) as [en|]; [|intros E; injection E as <- <-; auto].
+    destruct (m_no_recheck o); apply G; auto using ws_exists_wdel.
+    rewrite ws_exists_wput_other; auto using ws_exists_wdel.
+Qed.
+
+Lemma move_loop_absent : forall l f ups rechk f' ups' rechk',
+  move_loop fl o f l ups rechk = (f', Some (ups', rechk')) ->
+  forall e x d, In (e, x, d) l -> d <> r_path x -> (forall e' x' d', In (e', x', d') l -> d' <> r_path x) ->
+  ws_exists f' (r_path x) = false.
+Proof.
+  induction l as [|[[e0 x0] d0] t IH]; intros f ups rechk f' ups' rechk'; cbn [move_loop].
+  - intros _ e x d [].
+  - intros E e x d IN NS ND.
+    assert (NDt : forall e' x' d', In (e', x', d') t -> d' <> r_path x) by (intros; eapply ND; right; eauto).
+    destruct IN as [IN|IN].
+    + injection IN as -> -> ->.
+      assert (G : forall f1 u k, ws_exists f1 (r_path x) = false -> move_loop fl o f1 t u k = (f', Some (ups', rechk')) -> ws_exists f' (r_path x) = false).
+      { intros f1 u k A1 E1. eapply move_loop_stable; eauto. }
+      assert (DEL : ws_exists (wdel f (r_path x)) (r_path x) = false) by (apply ws_exists_none; now rewrite wget_wdel, beqb_refl).
+      revert E.
+      destruct (r_method x) eqn:SM; destruct (match m_as o with Some m => m | None => _ end) eqn:DM;
+        try (destruct (ws_exists f (r_path x)) eqn:EX; apply G; auto).
+      destruct (beqb_spec (r_path x) d) as [EQ|NE]; [congruence|].
+      destruct (fixed_mv_absent fl && negb (ws_exists f (r_path x))) eqn:FX.
+      { apply G. apply andb_true_iff in FX. destruct FX as (_ & FX). now destruct (ws_exists f (r_path x)). }
+      destruct (wget f (r_path x)) as [en|]; [|discriminate].
+      destruct (m_no_recheck o); apply G; auto. rewrite ws_exists_wput_other; auto.
+    + assert (G : forall f1 u k, move_loop fl o f1 t u k = (f', Some (ups', rechk')) -> ws_exists f' (r_path x) = false).
+      { intros f1 u k E1. eapply IH; eauto. }
+      revert E.
+      destruct (r_method x0) eqn:SM; destruct (match m_as o with Some m => m | None => _ end) eqn:DM;
+        try (destruct (ws_exists f (r_path x0)); apply G).
+      destruct (beqb (r_path x0) d0); [apply G|].
+      destruct (fixed_mv_absent fl && negb (ws_exists f (r_path x0))); [apply G|].
+      destruct (wget f (r_path x0)) as [en|]; [|discriminate].
+      destruct (m_no_recheck o); apply G.
+Qed.
+
+Lemma move_loop_rechk : forall l f ups rechk f' ups' rechk',
+  move_loop fl o f l ups rechk = (f', Some (ups', rechk')) ->
+  forall q, In q rechk' -> In q rechk \/ exists e x, In (e, x, q) l.
+Proof.
+  induction l as [|[[e0 x0] d0] t IH]; intros f ups rechk f' ups' rechk'; cbn [move_loop].
+  - intros E; injection E as <- <- <-. auto.
+  - assert (G : forall f1 u k, (forall q, In q k -> In q rechk \/ q = d0) -> move_loop fl o f1 t u k = (f', Some (ups', rechk')) ->
+                forall q, In q rechk' -> In q rechk \/ exists e x, In (e, x, q) ((e0, x0, d0) :: t)).
+    { intros f1 u k A E1 q I. destruct (IH _ _ _ _ _ _ E1 q I) as [I1|(e & x & I1)].
+      - destruct (A q I1) as [ | ->]; auto. right. exists e0, x0. now left.
+      - right. exists e, x. now right. }
+    assert (K0 : forall q, In q rechk -> In q rechk \/ q = d0) by auto.
+    assert (K1 : forall q, In q (rechk ++ [d0]) -> In q rechk \/ q = d0).
+    { intros q I. apply in_app_iff in I. destruct I as [|[<-|[]]]; auto. }
+    destruct (r_method x0) eqn:SM; destruct (match m_as o with Some m => m | None => _ end) eqn:DM;
+      try (destruct (ws_exists f (r_path x0)); apply G; auto).
+    destruct (beqb (r_path x0) d0); [apply G; auto|].
+    destruct (fixed_mv_absent fl && negb (ws_exists f (r_path x0))); [apply G; auto|].
+    destruct (wget f (r_path x0)) as [en|]; [|discriminate].
+    destruct (m_no_recheck o); apply G; auto.
+Qed.
+End MoveLoop.
+
+(* ---- move: method updates, the command ---------------------------------------------------------------------------------- *)
+Definition same_but_method (v v' : frec) : Prop :=
+  r_path v' = r_path v /\ r_meta v' = r_meta v /\ r_digest v' = r_digest v /\ r_hist v' = r_hist v /\ r_tob v' = r_tob v.
+Lemma sbm_refl v : same_but_method v v.
+Proof. unfold same_but_method; auto. Qed.
+Lemma sbm_trans a b c : same_but_method a b -> same_but_method b c -> same_but_method a c.
+Proof. unfold same_but_method; intuition congruence. Qed.
+
+Lemma set_methods_spec ups : forall b,
+  NoDup (keys (recs b)) ->
+  let b' := fold_left set_method ups b in
+  NoDup (keys (recs b')) /\ fs b' = fs b /\ next_ent b' = next_ent b /\ length (recs b') = length (recs b) /\
+  (forall k v', In (k, v') (recs b') -> exists v, In (k, v) (recs b) /\ same_but_method v v') /\
+  (forall k v, In (k, v) (recs b) -> exists v', In (k, v') (recs b') /\ same_but_method v v').
+Proof.
+  induction ups as [|[e m] t IH]; intros b K; cbn [fold_left].
+  - rsplit; auto; intros k v I; exists v; auto using sbm_refl.
+  - assert (EQ : set_method b (e, m) = match rget b e with
+                                        | Some x => rput b e (mk_frec (r_path x) (r_meta x) (r_digest x) (r_hist x) m (r_tob x))
+                                        | None => b end) by reflexivity.
+    rewrite EQ. clear EQ. destruct (rget b e) as [x|] eqn:G; [|apply IH; auto].
+    set (y := mk_frec (r_path x) (r_meta x) (r_digest x) (r_hist x) m (r_tob x)).
+    assert (Ix : In (e, x) (recs b)) by (apply (In_get _ _ _ K); exact G).
+    assert (K1 : NoDup (keys (recs (rput b e y)))) by (apply (@nodup_put _ _ _ Neqb_sp); auto).
+    destruct (IH (rput b e y) K1) as (K2 & F2 & N2 & L2 & B2 & C2).
+    assert (S : same_but_method x y) by (unfold same_but_method, y; cbn; auto).
+    rsplit; auto.
+    + rewrite L2. eapply length_put_existing; eauto.
+    + intros k v' I. destruct (B2 k v' I) as (v & I1 & S1). apply In_put in I1; auto.
+      destruct I1 as [[-> ->]|[NE I1]]; [exists x; split; auto; eapply sbm_trans; eauto | exists v; auto].
+    + intros k v I. destruct (N.eq_dec k e) as [->|NE].
+      * assert (v = x) by (apply (In_get _ _ _ K) in I; apply (In_get _ _ _ K) in Ix; congruence). subst v.
+        destruct (C2 e y) as (v' & I' & S'); [apply In_put; auto|]. exists v'; split; [auto | exact (sbm_trans _ _ _ S S')].
+      * destruct (C2 k v) as (v' & I' & S'); [apply In_put; auto|]. exists v'; auto.
+Qed.
+
+Definition move_result (r r' : xrepo) (e : N) (x : frec) (d : path) : Prop :=
+  (forall e' y, In (e', y) (recs (base r')) -> r_path y <> r_path x) /\
+  exists y, In (e, y) (recs (base r')) /\ r_path y = d /\ r_digest y = r_digest x /\ r_hist y = r_hist x /\
+            r_tob y = r_tob x /\ r_meta y = r_meta x.
+
+Theorem move_apply_spec fl o r l r' oc :
+  wf_fs (xfs r) -> wf_recs (base r) -> move_plan_ok r l -> move_apply fl o r l = (r', oc) ->
+  length (recs (base r')) = length (recs (base r)) /\
+  objs (xfs r') = objs (xfs r) /\ (forall a b, holds (xfs r) a b -> holds (xfs r') a b) /\
+  (forall e x d, In (e, x, d) l -> move_result r r' e x d) /\
+  (oc = Ok -> forall e x d, In (e, x, d) l -> ws_exists (xfs r') (r_path x) = false).
+Proof.
+  intros Wf [K P F] [MI MN MJ MD MU MF]. unfold move_apply.
+  destruct (move_paths_spec l r K MD) as (K1 & F1 & N1 & C1 & L1).
+  set (r1 := fold_left move_path_one l r) in *.
+  assert (LEN1 : length (recs (base r1)) = length (recs (base r))) by (apply L1; intros e x d I; exists x; eauto).
+  (* sources and destinations never coincide *)
+  assert (DS : forall e x d e' x' d', In (e, x, d) l -> In (e', x', d') l -> d' <> r_path x).
+  { intros e x d e' x' d' I I' EQ. eapply (stored_false_no_record r d'); [eapply MN; eauto| eapply MI; exact I|auto]. }
+  (* the records after the path updates *)
+  assert (REC1 : forall e x d, In (e, x, d) l ->
+            (forall k v, In (k, v) (recs (base r1)) -> r_path v <> r_path x) /\ In (e, moved x d) (recs (base r1))).
+  { intros e x d I. split.
+    - intros k v I1 EQ. apply C1 in I1. destruct I1 as [(x' & d' & I' & ->)|[NI I1]].
+      + cbn in EQ. exact (DS e x d k x' d' I I' EQ).
+      + apply NI. assert (k = e) by (eapply P; [exact I1|eapply MI; exact I|auto]). subst k.
+        unfold ents. apply in_map_iff. exists (e, x, d). split; auto.
+    - apply C1. left; eauto. }
+  destruct (move_loop fl o (xfs r1) l [] []) as [f2 res] eqn:ML.
+  assert (Wf1 : wf_fs (xfs r1)) by (rewrite F1; auto).
+  pose proof (ws_only_frame _ _ Wf1 (move_loop_ws_only fl o _ _ _ _ _ _ ML)) as FR2.
+  rewrite F1 in FR2.
+  (* results that only depend on the records being those of r1 up to the method *)
+  assert (FIN : forall r3 : xrepo, length (recs (base r3)) = length (recs (base r1)) ->
+            (forall k v', In (k, v') (recs (base r3)) -> exists v, In (k, v) (recs (base r1)) /\ same_but_method v v') ->
+            (forall k v, In (k, v) (recs (base r1)) -> exists v', In (k, v') (recs (base r3)) /\ same_but_method v v') ->
+            length (recs (base r3)) = length (recs (base r)) /\ forall e x d, In (e, x, d) l -> move_result r r3 e x d).
+  { intros r3 L3 B3 C3. split; [congruence|]. intros e x d I. destruct (REC1 e x d I) as (NO & YES). split.
+    - intros k v' I3. destruct (B3 k v' I3) as (v & Iv & (SP & _)). rewrite SP. eauto.
+    - destruct (C3 _ _ YES) as (y & Iy & (SP & SM & SD & SH & ST)). exists y. cbn in *. rsplit; auto. }
+  destruct res as [[ups rechk]|].
+  - destruct (set_methods_spec ups (base (set_xfs r1 f2))) as (K3 & F3 & N3 & L3 & B3 & C3); [exact K1|].
+    set (r3 := set_base (set_xfs r1 f2) (fold_left set_method ups (base (set_xfs r1 f2)))) in *.
+    assert (X3 : xfs r3 = f2) by (unfold r3, xfs; cbn [base set_base]; rewrite F3; reflexivity).
+    destruct (FIN r3 L3 B3 C3) as (LEN & RES).
+    assert (ABS : forall e x d, In (e, x, d) l -> ws_exists f2 (r_path x) = false).
+    { intros e x d I. eapply move_loop_absent; [exact ML|exact I|exact (DS e x d e x d I I)|intros e' x' d' I'; exact (DS e x d e' x' d' I I')]. }
+    destruct (m_no_recheck o).
+    + intros E; injection E as <- <-. rewrite X3. rsplit; auto.
+      * destruct FR2; auto.
+      * intros a b H; eapply frame_holds; eauto.
+    + intros E. assert (W3 : wf_fs (xfs r3)) by (rewrite X3; destruct FR2; auto).
+      destruct (recheck_dests_spec _ _ _ _ W3 E) as (R4 & N4 & D4 & FR4 & WS4 & _).
+      rewrite X3 in FR4, WS4.
+      assert (FRT : fs_frame (xfs r) (xfs r')) by (eapply fs_frame_trans; eauto).
+      rsplit.
+      * rewrite R4; auto.
+      * destruct FRT; auto.
+      * intros a b H; eapply frame_holds; eauto.
+      * intros e x d I. destruct (RES e x d I) as (A & B). split; rewrite R4; auto.
+      * intros _ e x d I. rewrite (ws_exists_frame f2 (xfs r') (r_path x) FR4); eauto.
+        apply WS4. intros IN. destruct (move_loop_rechk fl o _ _ _ _ _ _ _ ML _ IN) as [[]|(e' & x' & I')].
+        exact (DS e x d e' x' (r_path x) I I' eq_refl).
+  - intros E; injection E as <- <-.
+    destruct (FIN (set_xfs r1 f2)) as (LEN & RES); auto; try (intros k v I; exists v; auto using sbm_refl).
+    change (xfs (set_xfs r1 f2)) with f2. rsplit; auto.
+    + destruct FR2; auto.
+    + intros a b H; eapply frame_holds; eauto.
+    + discriminate.
+Qed.
+
+Theorem move_cmd_spec fl o src dst r r' oc l :
+  wf_fs (xfs r) -> wf_recs (base r) -> move_plan src dst r = MPlanned l -> move_cmd fl o src dst r = (r', oc) ->
+  length (recs (base r')) = length (recs (base r)) /\
+  objs (xfs r') = objs (xfs r) /\ (forall a b, holds (xfs r) a b -> holds (xfs r') a b) /\
+  (forall e x d, In (e, x, d) l -> move_result r r' e x d) /\
+  (oc = Ok -> forall e x d, In (e, x, d) l -> ws_exists (xfs r') (r_path x) = false).
+Proof.
+  intros Wf Wr PL. unfold move_cmd. rewrite PL. apply move_apply_spec; auto. eapply move_plan_is_ok; eauto.
+Qed.
+
+Lemma move_refuses_modified fl o src dst r :
+  existsb (fun ex => changed r (snd ex)) (sources r src) = true -> move_cmd fl o src dst r = (r, Err).
+Proof.
+  intros CH. unfold move_cmd, move_plan. rewrite CH.
+  destruct (Nat.ltb 1 (length (sources r src)) && negb (ends_slash dst)); auto.
+  destruct (ends_slash dst); auto. destruct (recorded_as_file r (removelast dst)); auto.
+Qed.
+Lemma move_refuses_tracked fl o src dst r :
+  ends_slash dst = false -> stored r dst = true -> exists oc, move_cmd fl o src dst r = (r, oc) /\ oc <> Ok.
+Proof.
+  intros ES ST. unfold move_cmd, move_plan. rewrite ES, ST.
+  destruct (Nat.ltb 1 (length (sources r src)) && negb false); [exists Err; split; auto; discriminate|].
+  destruct (existsb (fun ex => changed r (snd ex)) (sources r src)); [exists Err; split; auto; discriminate|].
+  destruct (sources r src) as [|[e x] t]; [exists Panic|exists Err]; split; auto; discriminate.
+Qed.
+
+(* ---- XvcCachePath::remove ------------------------------------------------------------------------------------------------ *)
+(* what a removal step preserves: the workspace; objects are only taken away; inodes keep their bytes
+   (a removed object's inode is made writable first) *)
+Record rm_rel (f f' : fsys) : Prop := {
+  rm_ws : ws f' = ws f;
+  rm_next : next_ino f' = next_ino f;
+  rm_objs : forall b e, oget f' b = Some e -> oget f b = Some e;
+  rm_ino : forall i n, iget f i = Some n -> exists n', iget f' i = Some n' /\ i_bytes n' = i_bytes n /\ (i_w n = true -> i_w n' = true);
+  rm_ino_back : forall i n', iget f' i = Some n' -> exists n, iget f i = Some n /\ i_bytes n' = i_bytes n
+}.
+Lemma rm_rel_refl f : rm_rel f f.
+Proof. constructor; auto; intros i n H; exists n; auto. Qed.
+Lemma rm_rel_trans f g h : rm_rel f g -> rm_rel g h -> rm_rel f h.
+Proof.
+  intros [A1 N1 B1 C1 D1] [A2 N2 B2 C2 D2]. constructor; try congruence; auto.
+  - intros i n H. destruct (C1 _ _ H) as (n1 & H1 & E1 & W1). destruct (C2 _ _ H1) as (n2 & H2 & E2 & W2).
+    exists n2. rsplit; auto; congruence.
+  - intros i n' H. destruct (D2 _ _ H) as (n1 & H1 & E1). destruct (D1 _ _ H1) as (n0 & H0 & E0). exists n0. split; auto; congruence.
+Qed.
+
+Lemma rm_rel_dirw f d w : rm_rel f (dput f d w).
+Proof. constructor; auto; intros i n H; exists n; auto. Qed.
+Lemma rm_rel_ddel f d : rm_rel f (ddel f d).
+Proof. constructor; auto; intros i n H; exists n; auto. Qed.
+Lemma rm_rel_prune f d : rm_rel f (prune f d).
+Proof. unfold prune. destruct (digest_dir_used f d); [apply rm_rel_refl|apply rm_rel_ddel]. Qed.
+Lemma rm_rel_chmod f e : rm_rel f (chmod_w_through f e).
+Proof.
+  unfold chmod_w_through. destruct (resolve f link_fuel e) as [i|]; [|apply rm_rel_refl].
+  destruct (iget f i) as [n|] eqn:Hi; [|apply rm_rel_refl].
+  constructor; auto.
+  - intros j m H. rewrite iget_iput. destruct (N.eqb_spec i j) as [<-|NE]; [|exists m; auto].
+    rewrite Hi in H. injection H as <-. eexists; rsplit; [reflexivity| |]; auto.
+  - intros j m'. rewrite iget_iput. destruct (N.eqb_spec i j) as [<-|NE]; [|intros H; exists m'; auto].
+    intros H; injection H as <-. exists n. auto.
+Qed.
+Lemma rm_rel_odel f a : rm_rel f (odel f a).
+Proof.
+  constructor; auto; try (intros i n H; exists n; auto).
+  intros b e. rewrite oget_odel. destruct (caddr_eqb a b); [discriminate|auto].
+Qed.
+
+Lemma cache_remove_rel f a : rm_rel f (cache_remove f a).
+Proof.
+  unfold cache_remove. destruct (obj_exists f a); [|apply rm_rel_prune].
+  eapply rm_rel_trans; [apply (rm_rel_dirw f (a_digest a) true)|].
+  set (f1 := dput f (a_digest a) true).
+  eapply rm_rel_trans; [|apply rm_rel_prune].
+  eapply rm_rel_trans; [|apply rm_rel_odel].
+  destruct (oget f1 a); [apply rm_rel_chmod|apply rm_rel_refl].
+Qed.
+(* only the address itself can disappear *)
+Lemma cache_remove_other f a b : b <> a -> oget (cache_remove f a) b = oget f b.
+Proof.
+  intros NE. unfold cache_remove, prune.
+  assert (P : forall g d, oget (if digest_dir_used g d then g else ddel g d) b = oget g b) by (intros g d; destruct (digest_dir_used g d); reflexivity).
+  destruct (obj_exists f a); rewrite P; auto.
+  rewrite oget_odel. destruct (caddr_eqb_spec a b); [congruence|].
+  destruct (oget (dput f (a_digest a) true) a) as [e|]; auto.
+  unfold chmod_w_through. destruct (resolve _ link_fuel e); auto. destruct (iget _ n0); auto.
+Qed.
+
+Lemma cache_removes_rel l : forall f, rm_rel f (fold_left cache_remove l f).
+Proof.
+  induction l as [|a t IH]; intros f; cbn [fold_left]; [apply rm_rel_refl|].
+  eapply rm_rel_trans; [apply cache_remove_rel|apply IH].
+Qed.
+Lemma cache_removes_other l b : ~ In b l -> forall f, oget (fold_left cache_remove l f) b = oget f b.
+Proof.
+  induction l as [|a t IH]; intros NI f; cbn [fold_left]; auto. cbn [In] in NI.
+  rewrite IH by tauto. apply cache_remove_other. intros ->; tauto.
+Qed.
+Lemma rm_rel_holds f f' b c : rm_rel f f' -> oget f' b = oget f b -> holds f b c -> holds f' b c.
+Proof.
+  intros [A N B C D] E (i & n & Ho & Hi & Hb). destruct (C _ _ Hi) as (n' & Hi' & E' & _).
+  exists i, n'. rsplit; congruence.
+Qed.
+
+(* ---- remove --from-cache ------------------------------------------------------------------------------------------------------ *)
+Lemma deletable_spec all tg a : deletable all tg a = true ->
+  forall e x, In (e, x) all -> refers x a = true -> is_target tg e = true.
+Proof.
+  unfold deletable. rewrite forallb_forall. intros H e x I R. specialize (H (e, x) I). cbn in H. rewrite R in H. exact H.
+Qed.
+
+Definition obj_present (f : fsys) (a : caddr) : Prop := oget f a <> None.
+
+(* what remove and untrack do to the cache: [del] is what they delete *)
+Lemma removal_respects all tg del f :
+  (forall a, In a del -> deletable all tg a = true) ->
+  let f' := fold_left cache_remove del f in
+  rm_rel f f' /\
+  (forall a, obj_present f a -> ~ obj_present f' a ->
+     forall e x, In (e, x) all -> refers x a = true -> is_target tg e = true) /\
+  (forall e x d c, In (e, x) all -> is_target tg e = false -> In d (r_hist x) ->
+     holds f (cache_addr (r_path x) d) c -> holds f' (cache_addr (r_path x) d) c).
+Proof.
+  intros D f'. split; [apply cache_removes_rel|]. split.
+  - intros a P NP e x I R. destruct (in_dec (fun u v => reflect_dec _ _ (caddr_eqb_spec u v)) a del) as [IN|NI].
+    + eapply deletable_spec; eauto.
+    + exfalso. apply NP. unfold obj_present, f'. rewrite cache_removes_other; auto.
+  - intros e x d c I NT IH H.
+    assert (NI : ~ In (cache_addr (r_path x) d) del).
+    { intros IN. apply D in IN. pose proof (deletable_spec _ _ _ IN e x I) as T.
+      assert (refers x (cache_addr (r_path x) d) = true).
+      { unfold refers, addrs_of. apply existsb_exists. exists (cache_addr (r_path x) d). split; [now apply in_map|].
+        destruct (caddr_eqb_spec (cache_addr (r_path x) d) (cache_addr (r_path x) d)); congruence. }
+      rewrite T in NT; auto; discriminate. }
+    eapply rm_rel_holds; [apply cache_removes_rel| |exact H]. apply cache_removes_other; auto.
+Qed.
+
+Lemma remove_like_spec (force : bool) all tg l f :
+  let f' := fold_left cache_remove (filter (fun a => force || deletable all tg a) l) f in
+  rm_rel f f' /\
+  (force = false ->
+   (forall a, obj_present f a -> ~ obj_present f' a ->
+      forall e x, In (e, x) all -> refers x a = true -> is_target tg e = true) /\
+   (forall e x d c, In (e, x) all -> is_target tg e = false -> In d (r_hist x) ->
+      holds f (cache_addr (r_path x) d) c -> holds f' (cache_addr (r_path x) d) c)).
+Proof.
+  intros f'. split; [apply cache_removes_rel|]. intros ->.
+  destruct (removal_respects all tg (filter (fun a => false || deletable all tg a) l) f) as (_ & A & B); auto.
+  intros a I. apply filter_In in I. tauto.
+Qed.
+
+Theorem remove_cmd_spec o targets r r' oc :
+  remove_cmd o targets r = (r', oc) ->
+  recs (base r') = recs (base r) /\ dirs r' = dirs r /\ rm_rel (xfs r) (xfs r') /\
+  (rm_force o = false ->
+   (forall a, obj_present (xfs r) a -> ~ obj_present (xfs r') a ->
+      forall e x, In (e, x) (recs (base r)) -> refers x a = true -> is_target (select r targets) e = true) /\
+   (forall e x d c, In (e, x) (recs (base r)) -> is_target (select r targets) e = false -> In d (r_hist x) ->
+      holds (xfs r) (cache_addr (r_path x) d) c -> holds (xfs r') (cache_addr (r_path x) d) c)).
+Proof.
+  unfold remove_cmd. cbv zeta.
+  match goal with |- (match ?cands with Some _ => _ | None => _ end) = _ -> _ => destruct cands as [l|] end.
+  - intros E; injection E as <- <-. change (xfs (set_xfs r ?f)) with f.
+    destruct (remove_like_spec (rm_force o) (recs (base r)) (select r targets) l (xfs r)) as (A & B).
+    split; [reflexivity|]. split; [reflexivity|]. split; [exact A|exact B].
+  - intros E; injection E as <- <-. split; [reflexivity|]. split; [reflexivity|]. split; [apply rm_rel_refl|]. intros _. split.
+    + intros a P NP; contradiction.
+    + auto.
+Qed.
+
+(* ---- untrack ---------------------------------------------------------------------------------------------------------------------- *)
+Definition objs_bounded (f : fsys) : Prop := forall a j, oget f a = Some (EFile j) -> (j < next_ino f)%N.
+Lemma bounded_frame f f' : fs_frame f f' -> objs_bounded f -> objs_bounded f'.
+Proof. intros [A B Ci D E] H a j. unfold oget. rewrite A. intros G. specialize (H a j G). lia. Qed.
+
+(* a regular file with an inode of its own (no cache object is that inode), writable, with bytes c *)
+Definition private_file (f : fsys) (p : path) (c : bytes) : Prop :=
+  exists j n, wget f p = Some (EFile j) /\ iget f j = Some n /\ i_w n = true /\ i_bytes n = c /\
+              forall a, oget f a <> Some (EFile j).
+
+(* the shapes in which a tracked path with bytes c can be in the workspace when untrack meets it:
+   a symlink to its current object, a hard link to its current object (re-materialised by the repair
+   of P7 only), or a private writable file *)
+Definition mat_pre (fl : flags) (f : fsys) (x : frec) (c : bytes) : Prop :=
+  let p := r_path x in
+  match wget f p with
+  | Some (ELink b) => exists d, r_digest x = Some d /\ b = cache_addr p d /\ holds f b c
+  | Some (EFile i) => (fixed_P7 fl = true /\ exists d n, r_digest x = Some d /\ oget f (cache_addr p d) = Some (EFile i) /\
+                                                       iget f i = Some n /\ i_bytes n = c)
+                      \/ private_file f p c
+  | None => False
+  end.
+
+Lemma resolve_is_object f k : forall b i, resolve f k (ELink b) = Some i -> exists a, oget f a = Some (EFile i).
+Proof.
+  induction k as [|k IH]; intros b i; cbn [resolve]; [discriminate|].
+  destruct (oget f b) as [[j|b']|] eqn:G; [|apply IH|discriminate].
+  rewrite resolve_file. intros E; injection E as <-. eauto.
+Qed.
+Lemma private_not_object f p c j a :
+  private_file f p c -> wget f p = Some (EFile j) -> same_inode_as_object f j a = false.
+Proof.
+  intros (j' & n & Hw & _ & _ & _ & NO) Hw'. rewrite Hw in Hw'. injection Hw' as ->.
+  unfold same_inode_as_object. destruct (oget f a) as [[i|b]|] eqn:G; auto.
+  - rewrite resolve_file. destruct (N.eqb_spec j i) as [<-|]; auto. exfalso; eapply NO; eauto.
+  - destruct (resolve f link_fuel (ELink b)) as [i|] eqn:R; auto.
+    destruct (N.eqb_spec j i) as [<-|]; auto. exfalso. destruct (resolve_is_object _ _ _ _ R) as (a' & G'). eapply NO; eauto.
+Qed.
+
+Lemma private_stable f f' p c : fs_frame f f' -> wget f' p = wget f p -> private_file f p c -> private_file f' p c.
+Proof.
+  intros [A B Ci D E] Hw (j & n & W & I & Wr & Bt & NO). exists j, n. rsplit; auto; try congruence.
+  intros a. unfold oget. rewrite A. apply NO.
+Qed.
+Lemma mat_pre_stable fl f f' x c :
+  fs_frame f f' -> wget f' (r_path x) = wget f (r_path x) -> mat_pre fl f x c -> mat_pre fl f' x c.
+Proof.
+  intros FR Hw. unfold mat_pre. cbv zeta. rewrite Hw. destruct (wget f (r_path x)) as [[i|b]|] eqn:G; auto.
+  - intros [(F7 & d & n & RD & O & I & Bt)|P].
+    + left. split; auto. exists d, n. rsplit; auto. rewrite (frame_oget _ _ _ FR); auto. destruct FR; auto.
+    + right. eapply private_stable; eauto. congruence.
+  - intros (d & RD & -> & H). exists d. rsplit; auto. eapply frame_holds; eauto.
+Qed.
+Lemma private_rm f f' p c : rm_rel f f' -> private_file f p c -> private_file f' p c.
+Proof.
+  intros [A N B C D] (j & n & W & I & Wr & Bt & NO). destruct (C _ _ I) as (n' & I' & E' & W').
+  exists j, n'. rsplit; auto; try congruence.
+  - unfold wget in *. rewrite A. exact W.
+  - intros a G. apply B in G. eapply NO; eauto.
+Qed.
+
+(* the first target of the loop *)
+Lemma mat_head fl f e x t f' oc :
+  wf_fs f -> objs_bounded f -> materialise fl f ((e, x) :: t) = (f', oc) ->
+  exists f1, fs_frame f f1 /\ objs_bounded f1 /\ (forall q, q <> r_path x -> wget f1 q = wget f q) /\
+    ((oc = Panic /\ f' = f1) \/
+     (materialise fl f1 t = (f', oc) /\ forall c, mat_pre fl f x c -> private_file f1 (r_path x) c)).
+Proof.
+  intros W OB. cbn [materialise]. cbv zeta.
+  assert (SAME : forall P : Prop, P -> fs_frame f f /\ objs_bounded f /\ (forall q, q <> r_path x -> wget f q = wget f q) /\ P)
+    by (intros; rsplit; auto using fs_frame_refl).
+  unfold mat_pre. cbv zeta.
+  destruct (wget f (r_path x)) as [en|] eqn:G.
+  2:{ destruct (fixed_P8 fl); intros E; exists f; apply SAME; [right; split; auto; intros c []|left; injection E as <- <-; auto]. }
+  destruct (r_digest x) as [d|] eqn:RD.
+  2:{ destruct en as [i|b].
+      - intros E; exists f; apply SAME. right; split; auto. intros c [(_ & d & n & X & _)|P]; [discriminate|exact P].
+      - destruct (fixed_P8 fl); intros E; exists f; apply SAME; [right; split; auto; intros c (d & X & _); discriminate|left; injection E as <- <-; auto]. }
+  destruct (needs_copy fl f en (cache_addr (r_path x) d)) eqn:NC.
+  - destruct (recheck_from_cache f (r_path x) (cache_addr (r_path x) d) Copy) as [f1 oc1] eqn:RF.
+    destruct (rfc_frame _ _ _ _ _ _ W RF) as (FR & WS).
+    assert (OB1 : objs_bounded f1) by (eapply bounded_frame; eauto).
+    destruct oc1.
+    2,3: (intros E; injection E as <- <-; exists f1; split; [exact FR|]; split; [exact OB1|]; split; [exact WS|]; left; auto).
+    intros E. exists f1. split; [exact FR|]. split; [exact OB1|]. split; [exact WS|]. right. split; [exact E|]. intros c PRE.
+    assert (H : holds f (cache_addr (r_path x) d) c).
+    { destruct en as [i|b].
+      - destruct PRE as [(_ & d' & n & RD' & O & I & Bt)|P].
+        + injection RD' as <-. exists i, n. auto.
+        + cbn [needs_copy] in NC. rewrite (private_not_object f (r_path x) c i _ P G) in NC. rewrite andb_false_r in NC. discriminate.
+      - destruct PRE as (d' & RD' & -> & H). injection RD' as <-. exact H. }
+    destruct (rfc_copy_entry _ _ _ _ _ W H RF) as (Hw & Hi & Nx).
+    eexists _, _. rsplit; [exact Hw|exact Hi|reflexivity|reflexivity|].
+    intros a O. rewrite (frame_oget _ _ _ FR) in O. apply OB in O. lia.
+  - intros E; exists f; apply SAME. right; split; auto. intros c PRE.
+    destruct en as [i|b]; [|discriminate].
+    destruct PRE as [(F7 & d' & n & RD' & O & I & Bt)|P]; auto.
+    exfalso. injection RD' as <-. cbn [needs_copy] in NC. rewrite F7 in NC. cbn in NC.
+    unfold same_inode_as_object in NC. rewrite O, resolve_file, N.eqb_refl in NC. discriminate.
+Qed.
+
+Lemma materialise_spec fl : forall tg f f' oc,
+  wf_fs f -> objs_bounded f -> materialise fl f tg = (f', oc) ->
+  fs_frame f f' /\ objs_bounded f' /\
+  (forall q, (forall e x, In (e, x) tg -> r_path x <> q) -> wget f' q = wget f q) /\
+  (oc = Ok \/ oc = Panic) /\
+  (oc = Ok -> NoDup (map (fun ex : N * frec => r_path (snd ex)) tg) ->
+     forall e x c, In (e, x) tg -> mat_pre fl f x c -> private_file f' (r_path x) c).
+Proof.
+  induction tg as [|[e0 x0] t IH]; intros f f' oc W OB E.
+  - cbn in E. injection E as <- <-. rsplit; auto using fs_frame_refl. intros _ _ e x c [].
+  - destruct (mat_head _ _ _ _ _ _ _ W OB E) as (f1 & FR1 & OB1 & WS1 & [(-> & ->)|(E1 & HEAD)]).
+    + rsplit; auto.
+      * intros q NQ. apply WS1. intros ->. eapply NQ; [left; reflexivity|reflexivity].
+      * discriminate.
+    + assert (W1 : wf_fs f1) by (destruct FR1; auto).
+      destruct (IH f1 f' oc W1 OB1 E1) as (FR2 & OB2 & WS2 & OC2 & PF2).
+      rsplit; auto.
+      * eapply fs_frame_trans; eauto.
+      * intros q NQ. rewrite WS2; [apply WS1|]; [intros ->; eapply NQ; [left; reflexivity|reflexivity] | intros e x I; eapply NQ; right; eauto].
+      * intros OK ND e x c IN PRE. cbn [map snd] in ND. inversion ND as [|? ? Hn ND']; subst.
+        destruct IN as [IN|IN].
+        -- injection IN as <- <-. eapply private_stable; [exact FR2| |apply HEAD; auto].
+           apply WS2. intros e x I EQ. apply Hn. rewrite <- EQ. apply in_map_iff. exists (e, x). auto.
+        -- eapply PF2; eauto. eapply mat_pre_stable; eauto. apply WS1. intros EQ. apply Hn. rewrite <- EQ.
+           apply in_map_iff. exists (e, x). auto.
+Qed.
+
+Lemma paths_nodup b : wf_recs b -> NoDup (map (fun ex : N * frec => r_path (snd ex)) (recs b)).
+Proof.
+  intros [K P _]. revert K P. generalize (recs b) as l. induction l as [|[e x] t IH]; cbn; [constructor|].
+  intros K P. inversion K as [|? ? Hn K']; subst. constructor.
+  - intros I. apply in_map_iff in I. destruct I as ([e' x'] & E & I). cbn in E.
+    assert (e = e') by (eapply P; [left; reflexivity|right; exact I|auto]). subst e'.
+    apply Hn. change e with (fst (e, x')). now apply in_map.
+  - apply IH; auto. intros e1 x1 e2 x2 I1 I2. apply P; now right.
+Qed.
+
+Lemma select_target r targets e x k v :
+  In (e, x) (select r targets) -> In (k, v) (recs (base r)) -> r_path v = r_path x -> is_target (select r targets) k = true.
+Proof.
+  intros I Ik EP. unfold is_target. apply existsb_exists. exists (k, v). split; [|cbn; apply N.eqb_refl].
+  unfold select in *. apply filter_In in I. apply filter_In. cbn [snd] in *. rewrite EP. tauto.
+Qed.
+Lemma is_target_in tg e x : In (e, x) tg -> is_target tg e = true.
+Proof. intros I. unfold is_target. apply existsb_exists. exists (e, x). split; auto. cbn. apply N.eqb_refl. Qed.
+
+Theorem untrack_cmd_spec fl targets r r' oc :
+  wf_fs (xfs r) -> objs_bounded (xfs r) -> wf_recs (base r) ->
+  untrack_cmd fl targets r = (r', oc) ->
+  let tg := select r targets in
+  (* objects: only deleted, and only when every referrer is a target *)
+  (forall a, obj_present (xfs r) a -> ~ obj_present (xfs r') a ->
+     forall e x, In (e, x) (recs (base r)) -> refers x a = true -> is_target tg e = true) /\
+  (forall a en, oget (xfs r') a = Some en -> oget (xfs r) a = Some en) /\
+  (* the other paths keep their records and every recorded version that was in the cache *)
+  (forall e x, In (e, x) (recs (base r)) -> is_target tg e = false ->
+     In (e, x) (recs (base r')) /\
+     forall d c, In d (r_hist x) -> holds (xfs r) (cache_addr (r_path x) d) c -> holds (xfs r') (cache_addr (r_path x) d) c) /\
+  (* the targets *)
+  (oc = Ok -> forall e x, In (e, x) tg ->
+     (forall k v, In (k, v) (recs (base r')) -> r_path v <> r_path x) /\
+     forall c, mat_pre fl (xfs r) x c -> private_file (xfs r') (r_path x) c).
+Proof.
+  intros W OB WR. unfold untrack_cmd. cbv zeta.
+  set (all := recs (base r)). set (tg := select r targets). set (tdirs := select_dirs r targets).
+  assert (TRIV : forall f1 oc1, fs_frame (xfs r) f1 -> oc1 <> Ok ->
+            (set_xfs r f1, oc1) = (r', oc) ->
+            (forall a, obj_present (xfs r) a -> ~ obj_present (xfs r') a -> forall e x, In (e, x) all -> refers x a = true -> is_target tg e = true) /\
+            (forall a en, oget (xfs r') a = Some en -> oget (xfs r) a = Some en) /\
+            (forall e x, In (e, x) all -> is_target tg e = false -> In (e, x) (recs (base r')) /\
+               forall d c, In d (r_hist x) -> holds (xfs r) (cache_addr (r_path x) d) c -> holds (xfs r') (cache_addr (r_path x) d) c) /\
+            (oc = Ok -> forall e x, In (e, x) tg -> (forall k v, In (k, v) (recs (base r')) -> r_path v <> r_path x) /\
+               forall c, mat_pre fl (xfs r) x c -> private_file (xfs r') (r_path x) c)).
+  { intros f1 oc1 FR NO E; injection E as <- <-. change (xfs (set_xfs r f1)) with f1. rsplit.
+    - intros a P NP. exfalso. apply NP. unfold obj_present in *. rewrite (frame_oget _ _ _ FR). exact P.
+    - intros a en. rewrite (frame_oget _ _ _ FR). auto.
+    - intros e x I NT. split; [exact I|]. intros d c _ H. eapply frame_holds; eauto.
+    - intros ->; congruence. }
+  destruct (negb (fixed_P8 fl) && match tdirs with [] => false | _ => true end).
+  { intros E. apply (TRIV (xfs r) Panic); [apply fs_frame_refl; auto|discriminate|].
+    rewrite <- E. unfold set_xfs, set_base, set_fs, xfs. destruct r as [[? ? ? ? ? ?] ?]; reflexivity. }
+  destruct (materialise fl (xfs r) tg) as [f1 oc1] eqn:MT.
+  destruct (materialise_spec fl tg _ _ _ W OB MT) as (FR & OB1 & WS & OC & PF).
+  destruct oc1.
+  2,3: (intros E; apply (TRIV f1 Panic); [exact FR|discriminate|exact E]).
+  intros E; injection E as <- <-.
+  match goal with |- context [fold_left cache_remove ?dl _] => set (del := dl) end.
+  match goal with |- context [set_xfs ?rr _] => set (r1 := rr) end.
+  change (xfs (set_xfs r1 ?f)) with f. change (recs (base (set_xfs r1 ?f))) with (filter (fun ex : N * frec => negb (is_target tg (fst ex))) all).
+  change (xfs r1) with f1.
+  destruct (removal_respects all tg del f1) as (RM & RESP & KEEP).
+  { intros a I. unfold del in I. apply filter_In in I. tauto. }
+  rsplit.
+  - intros a P NP. apply RESP; auto. unfold obj_present in *. rewrite (frame_oget _ _ _ FR). exact P.
+  - intros a en G. destruct RM as [_ _ B _ _]. apply B in G. rewrite (frame_oget _ _ _ FR) in G. exact G.
+  - intros e x I NT. split.
+    + apply filter_In. split; auto. cbn. now rewrite NT.
+    + intros d c ID H. apply (KEEP e x d c I NT ID). eapply frame_holds; eauto.
+  - intros _ e x IT. split.
+    + intros k v I EP. apply filter_In in I. destruct I as (I & NT). cbn in NT.
+      pose proof (select_target r targets e x k v IT I EP) as TT. fold tg in TT. rewrite TT in NT. discriminate.
+    + intros c PRE. eapply private_rm; [exact RM|]. apply (PF eq_refl) with (e := e); auto.
+      unfold tg, select. apply sublist_filter_nodup. apply paths_nodup; auto.
+Qed.
+
+(* ---- a source that is not in the workspace ------------------------------------------------------------------------------------------ *)
+Lemma absent_not_changed r x : ws_meta (xfs r) (r_path x) = None -> changed r x = false.
+Proof.
+  intros A. unfold changed, digest_diff. cbv zeta. change (fs (base r)) with (xfs r). rewrite A.
+  destruct (meta_eqb (r_meta x) None); reflexivity.
+Qed.
+
+Lemma recheck_dests_succeeds : forall ps r,
+  wf_fs (xfs r) -> NoDup ps ->
+  (forall p, In p ps -> exists e x d c, find_path (recs (base r)) p = Some (e, x) /\ r_digest x = Some d /\
+       holds (xfs r) (cache_addr p d) c /\ (ws_exists (xfs r) p = true \/ wget (xfs r) p = None)) ->
+  exists r', recheck_dests r ps = (r', Ok).
+Proof.
+  induction ps as [|p t IH]; intros r W ND H; cbn [recheck_dests]; [eauto|].
+  destruct (H p (or_introl eq_refl)) as (e & x & d & c & FP & RD & HO & WS). rewrite FP, RD.
+  destruct (rfc_succeeds (xfs r) p (cache_addr p d) (r_method x) c W HO WS) as (f1 & RF). rewrite RF.
+  destruct (rfc_frame _ _ _ _ _ _ W RF) as (FR & WSF).
+  inversion ND as [|? ? Hn ND']; subst.
+  apply IH; auto.
+  - change (xfs (set_xfs r f1)) with f1. destruct FR; auto.
+  - intros q I. destruct (H q (or_intror I)) as (e' & x' & d' & c' & FP' & RD' & HO' & WS').
+    exists e', x', d', c'. change (xfs (set_xfs r f1)) with f1. change (recs (base (set_xfs r f1))) with (recs (base r)).
+    assert (NE : q <> p) by (intros ->; auto).
+    rsplit; auto; [eapply frame_holds; eauto|].
+    rewrite (ws_exists_frame _ _ q FR (WSF q NE)), (WSF q NE). exact WS'.
+Qed.
+
+(* one source that is absent from the workspace, a new destination file with the same extension, the
+   committed object in the cache: copy goes through, the destination is tracked with the source's
+   digest and (unless --no-recheck) reads the committed bytes *)
+Theorem copy_absent_source o src dst r e x dg c :
+  wf_fs (xfs r) -> wf_recs (base r) ->
+  sources r src = [(e, x)] -> ends_slash dst = false -> stored r dst = false ->
+  ws_meta (xfs r) (r_path x) = None ->
+  r_digest x = Some dg -> extension dst = extension (r_path x) -> holds (xfs r) (cache_addr (r_path x) dg) c ->
+  ws_lexists (xfs r) dst = false ->
+  exists r', copy_cmd o src dst r = (r', Ok) /\
+    (exists e' y, In (e', y) (recs (base r')) /\ copied_as o x y dst) /\
+    (c_no_recheck o = false -> ws_read (xfs r') dst = Some c).
+Proof.
+  intros Wf Wr SR ES ST AB RD EX HO LX.
+  assert (WS : ws_exists (xfs r) dst = true \/ wget (xfs r) dst = None).
+  { right. unfold ws_lexists in LX. destruct (wget (xfs r) dst); [discriminate|reflexivity]. }
+  assert (PL : copy_plan o src dst r = CPlanned [plan_pair r x dst] false).
+  { unfold copy_plan. rewrite SR, ES. cbn [map snd length Nat.ltb Nat.leb andb existsb].
+    rewrite (absent_not_changed r x AB). cbn [orb]. rewrite pair_taken_stored, ST. cbn [andb].
+    unfold copy_checked, untracked_dest_exists. cbn [existsb cd_path plan_pair]. rewrite LX, andb_false_r. cbn [orb].
+    rewrite andb_false_r. reflexivity. }
+  assert (ND : NoDup (map cd_path [plan_pair r x dst])) by (cbn; constructor; [tauto|constructor]).
+  assert (AC : forall c0, In c0 [plan_pair r x dst] -> plan_acc (recs (base r)) c0) by (intros c0 [<-|[]]; apply plan_pair_acc).
+  unfold copy_cmd. rewrite PL.
+  destruct (copy_records_spec o [plan_pair r x dst] r Wr ND AC) as (W1 & F1 & C1 & O1).
+  destruct (C1 _ (or_introl eq_refl)) as (e' & y & IN & CA). cbn [cs_rec cd_path plan_pair] in CA.
+  unfold copy_apply. set (r1 := fold_left (copy_records_one o) [plan_pair r x dst] r) in *.
+  destruct (c_no_recheck o) eqn:NR.
+  - exists r1. rsplit; eauto. discriminate.
+  - assert (Wf1 : wf_fs (xfs r1)) by (rewrite F1; auto).
+    destruct (recheck_dests_succeeds [dst] r1 Wf1) as (r2 & RDS).
+    + constructor; [tauto|constructor].
+    + intros p [<-|[]]. destruct CA as (EP & DG & _). exists e', y, dg, c. rewrite F1.
+      rsplit; auto; [apply find_path_unique; auto|]. rewrite (same_ext_same_addr _ _ dg EX). exact HO.
+    + assert (RDS' : recheck_dests r1 (map cd_path [plan_pair r x dst]) = (r2, Ok)) by exact RDS.
+      exists r2. rewrite RDS'. cbn [worst].
+      destruct (recheck_dests_spec _ _ _ _ Wf1 RDS) as (R & _ & _ & _ & _ & RD2).
+      rsplit; auto.
+      * exists e', y. rewrite R. auto.
+      * intros _. destruct CA as (EP & DG & _).
+        assert (NDd : NoDup [dst]) by (constructor; [intros []|constructor]).
+        assert (FPd : find_path (recs (base r1)) dst = Some (e', y)) by (apply find_path_unique; auto).
+        assert (HOd : holds (xfs r1) (cache_addr dst dg) c) by (rewrite F1, (same_ext_same_addr _ _ dg EX); exact HO).
+        exact (RD2 eq_refl NDd dst e' y dg c (or_introl eq_refl) FPd (DG dg RD) HOd).
+Qed.
+
+From Coq Require Import PeanoNat.
+Lemma remove_ambiguous any ds f targets r :
+  (1 < length (flat_map (fun ex => filter (version_matches any ds) (addrs_of (snd ex))) (select r targets)))%nat ->
+  remove_cmd {| rm_versions := VOnly any ds; rm_force := f |} targets r = (r, Err).
+Proof.
+  intros H. unfold remove_cmd. cbn [rm_versions]. apply Nat.ltb_lt in H. rewrite H. reflexivity.
+Qed.
+
+Lemma restorable f p a m c :
+  wf_fs f -> holds f a c -> (ws_exists f p = true \/ wget f p = None) ->
+  exists f', recheck_from_cache f p a m = (f', Ok) /\ ws_read f' p = Some c.
+Proof.
+  intros W H P. destruct (rfc_succeeds f p a m c W H P) as (f' & E). exists f'. split; [exact E|].
+  exact (rfc_reads f p a m f' c W H E).
+Qed.
+
+(* the repair of P4: a destination that exists in the workspace is never replaced without --force *)
+Lemma copy_refuses_existing o src dst r :
+  ends_slash dst = false -> c_cforce o = false -> ws_lexists (xfs r) dst = true ->
+  exists oc, copy_cmd o src dst r = (r, oc) /\ oc <> Ok.
+Proof.
+  intros ES NF LX. unfold copy_cmd, copy_plan. rewrite ES, NF.
+  destruct (Nat.ltb 1 (length (map snd (sources r src))) && negb false); [exists Err; split; auto; discriminate|].
+  destruct (existsb (changed r) (map snd (sources r src))); [exists Err; split; auto; discriminate|].
+  destruct (map snd (sources r src)) as [|x t]; [exists Panic; split; auto; discriminate|].
+  destruct (pair_taken (plan_pair r x dst)) eqn:PT; cbn [andb negb]; [exists Err; split; auto; discriminate|].
+  unfold copy_checked, untracked_dest_exists. rewrite NF. cbn [existsb negb andb cd_path plan_pair]. rewrite PT, LX. cbn.
+  exists Err; split; auto; discriminate.
+Qed.
+Lemma move_refuses_existing fl o src dst r :
+  ends_slash dst = false -> ws_lexists (xfs r) dst = true ->
+  exists oc, move_cmd fl o src dst r = (r, oc) /\ oc <> Ok.
+Proof.
+  intros ES LX. unfold move_cmd, move_plan. rewrite ES.
+  destruct (Nat.ltb 1 (length (sources r src)) && negb false); [exists Err; split; auto; discriminate|].
+  destruct (existsb (fun ex => changed r (snd ex)) (sources r src)); [exists Err; split; auto; discriminate|].
+  destruct (sources r src) as [|[e x] t]; [exists Panic; split; auto; discriminate|].
+  destruct (stored r dst); [exists Err; split; auto; discriminate|].
+  unfold move_checked. cbn [existsb snd]. rewrite LX. cbn. exists Err; split; auto; discriminate.
+Qed.
